@@ -3,8 +3,11 @@
 
   The fragment: raw text, `{print}` with directives, `{let $x: e /}`, `{if}/{elseif}/{else}`,
   `{foreach $x in e}…{ifempty}…{/foreach}`, `{for $i in range(a[, b[, c]])}` (c a positive literal),
-  `{switch}` (`{default}` last), `{let $x}…{/let}` content blocks (a buffer of their own), the expressions
-  of Props/C04c inside them.
+  `{switch}` (`{default}` last), `{let $x}…{/let}` content blocks (a buffer of their own), `{call}` with value
+  params, `{param k}…{/param}` content params and `data="all"` / `data="$e"` (soy.$$augmentMap) — against a CALLEE
+  ORACLE: `G name data`, what the generated function `name` returns, related by the hypothesis `CallRel` to the
+  `call` of the reference context `R : RefCtx` (registry, entry data, `call` as in Spec/Eval) — the expressions of
+  Props/C04c inside them.
 
   1. `toCmds` translates the commands, in the generator scope they are met in, to the statement AST of
      Spec/JsStmt; `walkCmds_renders`: the generator model writes EXACTLY `renderStmts` of the
@@ -28,6 +31,8 @@ import SoyVerif.Lemmas.JsonValue
 namespace SoyVerif.Props.C04d
 open SoyVerif SoyVerif.Model SoyVerif.Model.JsGen SoyVerif.Spec.JsSemRef SoyVerif.Spec.JsStmt
 open SoyVerif.Props.C04c (toAst render RunsSc Same walkExpr_renders toJsV EnvRel)
+
+variable {ent : Spec.Eval.Binds}
 
 
 /-! ## 1. translation -/
@@ -147,6 +152,40 @@ def loopJoin (v : Bytes) (list : Expr) (sc : Scope) (rbEach : Option (JsStmts ×
   | some r => some r
   | none => rangeJoin v list sc rbRange noIfEmpty
 
+/-- the first argument of the callee: `{}`, `opt_data` (`data="all"`) or the `data="$e"` expression -/
+def callBase (sc : Scope) (allData : Bool) (data : Option Expr) : Option DataBase :=
+  match allData, data with
+  | false, none => some .empty
+  | true, none => some .all
+  | false, some e => (toAst sc e).map .expr
+  | true, some _ => none
+
+/-- a `{param k: e /}` from the translations of its parts -/
+def valueParamJoin (key : Bytes) (j : Option JsExpr) (rr : Option (JsStmts × List (Bytes × JsExpr) × Scope)) :
+    Option (JsStmts × List (Bytes × JsExpr) × Scope) :=
+  match j, rr with
+  | some j, some rr => some (rr.1, (key, j) :: rr.2.1, rr.2.2)
+  | _, _ => none
+
+/-- a `{param k}…{/param}` from the translation of its body (run with the buffer `g`): declare the buffer, fill
+    it; the param's value is the buffer -/
+def contentParamJoin (key g : Bytes) (rb : Option (JsStmts × Scope))
+    (rest : Scope → Option (JsStmts × List (Bytes × JsExpr) × Scope)) :
+    Option (JsStmts × List (Bytes × JsExpr) × Scope) :=
+  match rb with
+  | none => none
+  | some rb =>
+    match rest rb.2 with
+    | some rr => some ((JsStmts.cons (.varEmpty g) rb.1).append rr.1, (key, .local g) :: rr.2.1, rr.2.2)
+    | none => none
+
+/-- `{call}` from the translations of its parts: the statements of the content params, then the call -/
+def callJoin (buf name : Bytes) (base : Option DataBase) (rp : Option (JsStmts × List (Bytes × JsExpr) × Scope)) :
+    Option (JsStmts × Scope) :=
+  match base, rp with
+  | some b, some rp => some (rp.1.append (.one (.call buf name b rp.2.1)), rp.2.2)
+  | _, _ => none
+
 section
 variable (ae : Autoescape)
 
@@ -183,7 +222,18 @@ mutual
     | _, .letContent _ name body, sc =>
       -- `{let $x}…{/let}`: the body writes to a buffer of its own, which `$x` then names
       letJoin name sc (toBlock (sc.genname name).1 body (sc.genname name).2)
+    | buf, .call _ name allData data params, sc =>
+      -- `{call name …}`: the content params are rendered into buffers of their own first
+      callJoin buf name (callBase sc allData data) (toParams params sc)
     | _, _, _ => none
+  /-- the params of a call: the statements that fill the content params' buffers, the `key: value` list, and the
+      scope afterwards (only its counter moved) -/
+  def toParams : ParamList → Scope → Option (JsStmts × List (Bytes × JsExpr) × Scope)
+    | .nil, sc => some (.nil, [], sc)
+    | .value _ key e rest, sc => valueParamJoin key (toAst sc e) (toParams rest sc)
+    | .content _ key body rest, sc =>
+      contentParamJoin key (sc.genname b!"param").1
+        (toBlock (sc.genname b!"param").1 body (sc.genname b!"param").2) (toParams rest)
   /-- the body of a loop: in the loop's frame -/
   def toBody : Bytes → Block → Scope → Option (JsStmts × Scope)
     | buf, .mk _ cmds, sc => toCmds buf cmds sc
@@ -239,14 +289,30 @@ def closePieces (d : Directive) : List Piece :=
   d.args.flatMap argPieces ++ (if d.name == b!"truncate" && d.args.length == 1 then [.fixed b!",true"] else []) ++
     [.fixed b!")"]
 
+def basePieces : DataBase → List Piece
+  | .empty => [.fixed b!"{}"]
+  | .all => [.fixed b!"opt_data"]
+  | .expr e => render e
+
+/-- `k: v, k: v, …` -/
+def kvPieces : List (Bytes × JsExpr) → Bool → List Piece
+  | [], _ => []
+  | (k, v) :: r, first => (if first then [] else [.fixed b!", "]) ++ [.ident k, .fixed b!": "] ++ render v ++ kvPieces r false
+
+/-- the data argument of a call -/
+def dataPieces (base : DataBase) (params : List (Bytes × JsExpr)) : List Piece :=
+  match params with
+  | [] => basePieces base
+  | ps => [.fixed b!"soy.$$augmentMap("] ++ basePieces base ++ [.fixed b!", {"] ++ kvPieces ps true ++ [.fixed b!"})"]
+
 mutual
-  def renderStmt (ind : Nat) : JsStmt → List Piece
+  def renderStmt (es6 : Bool) (ind : Nat) : JsStmt → List Piece
     | .appendLit b t => [.fixed (spaces ind), .ident b, .fixed b!" += '", .escaped t, .fixed b!"';\n"]
     | .append b e ds =>
       [.fixed (spaces ind), .ident b, .fixed b!" += "] ++ ds.reverse.flatMap openPieces ++ render e ++
         ds.flatMap closePieces ++ [.fixed b!";\n"]
     | .var x e => [.fixed (spaces ind), .fixed b!"var ", .ident x, .fixed b!" = "] ++ render e ++ [.fixed b!";", .fixed [10]]
-    | .ifs conds => [.fixed (spaces ind)] ++ renderConds ind conds true ++ [.fixed [10]]
+    | .ifs conds => [.fixed (spaces ind)] ++ renderConds es6 ind conds true ++ [.fixed [10]]
     | .varEmpty x => [.fixed (spaces ind), .fixed b!"var ", .ident x, .fixed b!" = '';", .fixed [10]]
     | .varLength x list =>
       [.fixed (spaces ind), .fixed b!"var ", .ident x, .fixed b!" = ", .ident list, .fixed b!".length;", .fixed [10]]
@@ -255,47 +321,50 @@ mutual
         .fixed [10]]
     | .forUp i lim body =>
       [.fixed (spaces ind), .fixed b!"for (var ", .ident i, .fixed b!" = 0; ", .ident i, .fixed b!" < ", .ident lim,
-        .fixed b!"; ", .ident i, .fixed b!"++) {", .fixed [10]] ++ renderStmts (ind + 1) body ++
+        .fixed b!"; ", .ident i, .fixed b!"++) {", .fixed [10]] ++ renderStmts es6 (ind + 1) body ++
         [.fixed (spaces ind), .fixed b!"}", .fixed [10]]
     | .forStep i lim step idx init body =>
       [.fixed (spaces ind), .fixed b!"for (var ", .ident i, .fixed b!" = "] ++ render init ++
         [.fixed b!", ", .ident idx, .fixed b!" = 0; ", .ident i, .fixed b!" < ", .ident lim, .fixed b!"; ", .ident i,
           .fixed b!" += ", .ident step, .fixed b!", ", .ident idx, .fixed b!"++) {", .fixed [10]] ++
-        renderStmts (ind + 1) body ++ [.fixed (spaces ind), .fixed b!"}", .fixed [10]]
+        renderStmts es6 (ind + 1) body ++ [.fixed (spaces ind), .fixed b!"}", .fixed [10]]
     | .switchS e cases =>
-      [.fixed (spaces ind), .fixed b!"switch ("] ++ render e ++ [.fixed b!") {", .fixed [10]] ++ renderCases (ind + 1) cases ++
+      [.fixed (spaces ind), .fixed b!"switch ("] ++ render e ++ [.fixed b!") {", .fixed [10]] ++ renderCases es6 (ind + 1) cases ++
         [.fixed (spaces ind), .fixed b!"}", .fixed [10]]
+    | .call b callee base params =>
+      [.fixed (spaces ind), .ident b, .fixed b!" += ", (if es6 then .es6name callee else .qname callee), .fixed b!"("] ++
+        dataPieces base params ++ [.fixed b!", opt_sb, opt_ijData);", .fixed [10]]
     | .ifPos lim body els =>
-      [.fixed (spaces ind), .fixed b!"if (", .ident lim, .fixed b!" > 0) {", .fixed [10]] ++ renderStmts (ind + 1) body ++
-        [.fixed (spaces ind), .fixed b!"} else {", .fixed [10]] ++ renderStmts (ind + 1) els ++
+      [.fixed (spaces ind), .fixed b!"if (", .ident lim, .fixed b!" > 0) {", .fixed [10]] ++ renderStmts es6 (ind + 1) body ++
+        [.fixed (spaces ind), .fixed b!"} else {", .fixed [10]] ++ renderStmts es6 (ind + 1) els ++
         [.fixed (spaces ind), .fixed b!"}", .fixed [10]]
-  def renderStmts (ind : Nat) : JsStmts → List Piece
+  def renderStmts (es6 : Bool) (ind : Nat) : JsStmts → List Piece
     | .nil => []
-    | .cons s r => renderStmt ind s ++ renderStmts ind r
-  def renderCases (ind : Nat) : JsCases → List Piece
+    | .cons s r => renderStmt es6 ind s ++ renderStmts es6 ind r
+  def renderCases (es6 : Bool) (ind : Nat) : JsCases → List Piece
     | .nil => []
     | .dflt body =>
-      [.fixed (spaces ind), .fixed b!"default:", .fixed [10]] ++ renderStmts (ind + 1) body ++
+      [.fixed (spaces ind), .fixed b!"default:", .fixed [10]] ++ renderStmts es6 (ind + 1) body ++
         [.fixed (spaces (ind + 1)), .fixed b!"break;", .fixed [10]]
     | .cons labels body rest =>
       labels.flatMap (fun j => [.fixed (spaces ind), .fixed b!"case "] ++ render j ++ [.fixed b!":", .fixed [10]]) ++
-        renderStmts (ind + 1) body ++ [.fixed (spaces (ind + 1)), .fixed b!"break;", .fixed [10]] ++ renderCases ind rest
-  def renderConds (ind : Nat) : JsConds → Bool → List Piece
+        renderStmts es6 (ind + 1) body ++ [.fixed (spaces (ind + 1)), .fixed b!"break;", .fixed [10]] ++ renderCases es6 ind rest
+  def renderConds (es6 : Bool) (ind : Nat) : JsConds → Bool → List Piece
     | .nil, _ => []
     | .els body, first =>
-      (if first then [] else [.fixed b!" else "]) ++ [.fixed b!"{\n"] ++ renderStmts (ind + 1) body ++
+      (if first then [] else [.fixed b!" else "]) ++ [.fixed b!"{\n"] ++ renderStmts es6 (ind + 1) body ++
         [.fixed (spaces ind), .fixed b!"}"]
     | .cons c body rest, first =>
       (if first then [] else [.fixed b!" else "]) ++ [.fixed b!"if ("] ++ render c ++ [.fixed b!") ", .fixed b!"{\n"] ++
-        renderStmts (ind + 1) body ++ [.fixed (spaces ind), .fixed b!"}"] ++ renderConds ind rest false
+        renderStmts es6 (ind + 1) body ++ [.fixed (spaces ind), .fixed b!"}"] ++ renderConds es6 ind rest false
 end
 
-theorem renderStmts_append (ind : Nat) : ∀ (a b : JsStmts),
-    renderStmts ind (a.append b) = renderStmts ind a ++ renderStmts ind b
+theorem renderStmts_append (es6 : Bool) (ind : Nat) : ∀ (a b : JsStmts),
+    renderStmts es6 ind (a.append b) = renderStmts es6 ind a ++ renderStmts es6 ind b
   | .nil, b => by simp [JsStmts.append, renderStmts]
-  | .cons s r, b => by simp [JsStmts.append, renderStmts, renderStmts_append ind r b]
+  | .cons s r, b => by simp [JsStmts.append, renderStmts, renderStmts_append es6 ind r b]
 
-theorem renderStmts_one (ind : Nat) (s : JsStmt) : renderStmts ind (.one s) = renderStmt ind s := by
+theorem renderStmts_one (es6 : Bool) (ind : Nat) (s : JsStmt) : renderStmts es6 ind (.one s) = renderStmt es6 ind s := by
   simp [JsStmts.one, renderStmts]
 
 /-! ## the generator writes `renderStmts (toCmds …)` -/
@@ -419,7 +488,7 @@ theorem Runs.addCalled (k : Bytes) (v : List Piece) : Runs (At ind buf ae sc) (A
   exact ⟨_, rfl, hs.1, hs.2.1, hs.2.2.1, hs.2.2.2⟩
 
 theorem rawText_runs (p : Nat) (t : Bytes) :
-    Runs (At ind buf ae sc) (At ind buf ae sc) (walkCmd sk o (.rawText p t)) (renderStmts ind (.one (.appendLit buf t))) := by
+    Runs (At ind buf ae sc) (At ind buf ae sc) (walkCmd sk o (.rawText p t)) (renderStmts (isEs6 o) ind (.one (.appendLit buf t))) := by
   sunfold walkCmd
   unfold writeRawText
   exact (Runs.seq Runs.atOther (Runs.seq Runs.indentP (Runs.getBuf
@@ -444,7 +513,7 @@ theorem closeDirective_runs (d : Directive) (hd : d.args.all (fun a => (litAst a
 theorem print_runs (p : Nat) (arg : Expr) (dirs : List Directive) (j : JsExpr) (ck : Bool × List Directive)
     (hok : dirs.all dirOk = true) (hj : toAst sc arg = some j) (hc : collectDirs dirs = some ck) :
     Runs (At ind buf ae sc) (At ind buf ae sc) (walkCmd sk o (.print p arg dirs))
-      (renderStmts ind (.one (.append buf j (printDirs ae ck.1 ck.2)))) := by
+      (renderStmts (isEs6 o) ind (.one (.append buf j (printDirs ae ck.1 ck.2)))) := by
   sunfold walkCmd
   refine (Runs.seq Runs.atOther ?_).cast (List.nil_append _)
   unfold visitPrint
@@ -481,7 +550,7 @@ theorem print_runs (p : Nat) (arg : Expr) (dirs : List Directive) (j : JsExpr) (
 
 theorem letValue_runs (p : Nat) (x : Bytes) (e : Expr) (j : JsExpr) (hj : toAst sc e = some j) :
     Runs (At ind buf ae sc) (At ind buf ae (sc.makevar x).2) (walkCmd sk o (.letValue p x e))
-      (renderStmts ind (.one (.var (sc.makevar x).1 j))) := by
+      (renderStmts (isEs6 o) ind (.one (.var (sc.makevar x).1 j))) := by
   sunfold walkCmd
   have h := walkExpr_renders sk o sc e j hj
   exact (Runs.seq Runs.atOther (Runs.block h (Runs.getScope (Runs.seq (Runs.setScope _)
@@ -489,39 +558,39 @@ theorem letValue_runs (p : Nat) (x : Bytes) (e : Expr) (j : JsExpr) (hj : toAst 
       (Runs.seq (Runs.emits _) (Runs.seq (Runs.fx _) Runs.nl)))))))))).cast (by simp [renderStmts_one, renderStmt])
 
 theorem ifc_runs (p : Nat) (conds : CondList) (cs : JsConds) (sc' : Scope)
-    (h : Runs (At ind buf ae sc) (At ind buf ae sc') (visitConds sk o conds true) (renderConds ind cs true)) :
-    Runs (At ind buf ae sc) (At ind buf ae sc') (walkCmd sk o (.ifc p conds)) (renderStmts ind (.one (.ifs cs))) := by
+    (h : Runs (At ind buf ae sc) (At ind buf ae sc') (visitConds sk o conds true) (renderConds (isEs6 o) ind cs true)) :
+    Runs (At ind buf ae sc) (At ind buf ae sc') (walkCmd sk o (.ifc p conds)) (renderStmts (isEs6 o) ind (.one (.ifs cs))) := by
   sunfold walkCmd
   exact (Runs.seq Runs.atOther (Runs.seq Runs.indentP (Runs.seq h Runs.nl))).cast (by simp [renderStmts_one, renderStmt])
 
 theorem block_runs (p : Nat) (cmds : CmdList) (st : JsStmts) (sc' : Scope)
-    (h : Runs (At ind buf ae sc.push) (At ind buf ae sc') (walkCmds sk o cmds) (renderStmts ind st)) :
-    Runs (At ind buf ae sc) (At ind buf ae sc'.pop) (walkBlock sk o (.mk p cmds)) (renderStmts ind st) := by
+    (h : Runs (At ind buf ae sc.push) (At ind buf ae sc') (walkCmds sk o cmds) (renderStmts (isEs6 o) ind st)) :
+    Runs (At ind buf ae sc) (At ind buf ae sc'.pop) (walkBlock sk o (.mk p cmds)) (renderStmts (isEs6 o) ind st) := by
   sunfold walkBlock
   exact (Runs.seq Runs.pushScope (Runs.seq Runs.atOther (Runs.seq h Runs.popScope))).cast (by simp)
 
 theorem cmds_cons_runs (c : Cmd) (rest : CmdList) (s1 s2 : JsStmts) (sc1 sc2 : Scope)
-    (h1 : Runs (At ind buf ae sc) (At ind buf ae sc1) (walkCmd sk o c) (renderStmts ind s1))
-    (h2 : Runs (At ind buf ae sc1) (At ind buf ae sc2) (walkCmds sk o rest) (renderStmts ind s2)) :
-    Runs (At ind buf ae sc) (At ind buf ae sc2) (walkCmds sk o (.cons c rest)) (renderStmts ind (s1.append s2)) := by
+    (h1 : Runs (At ind buf ae sc) (At ind buf ae sc1) (walkCmd sk o c) (renderStmts (isEs6 o) ind s1))
+    (h2 : Runs (At ind buf ae sc1) (At ind buf ae sc2) (walkCmds sk o rest) (renderStmts (isEs6 o) ind s2)) :
+    Runs (At ind buf ae sc) (At ind buf ae sc2) (walkCmds sk o (.cons c rest)) (renderStmts (isEs6 o) ind (s1.append s2)) := by
   sunfold walkCmds
-  exact (Runs.seq h1 h2).cast (renderStmts_append ind s1 s2).symm
+  exact (Runs.seq h1 h2).cast (renderStmts_append (isEs6 o) ind s1 s2).symm
 
-theorem cmds_nil_runs : Runs (At ind buf ae sc) (At ind buf ae sc) (walkCmds sk o .nil) (renderStmts ind .nil) := by
+theorem cmds_nil_runs : Runs (At ind buf ae sc) (At ind buf ae sc) (walkCmds sk o .nil) (renderStmts (isEs6 o) ind .nil) := by
   sunfold walkCmds
   exact Runs.pure
 
 theorem conds_nil_runs (first : Bool) :
-    Runs (At ind buf ae sc) (At ind buf ae sc) (visitConds sk o .nil first) (renderConds ind .nil first) := by
+    Runs (At ind buf ae sc) (At ind buf ae sc) (visitConds sk o .nil first) (renderConds (isEs6 o) ind .nil first) := by
   sunfold visitConds
   exact Runs.pure
 
 theorem conds_some_runs (p : Nat) (c : Expr) (body : Block) (rest : CondList) (first : Bool) (j : JsExpr)
     (b : JsStmts) (rr : JsConds) (sc1 sc2 : Scope) (hj : toAst sc c = some j)
-    (hb : Runs (At (ind + 1) buf ae sc) (At (ind + 1) buf ae sc1) (walkBlock sk o body) (renderStmts (ind + 1) b))
-    (hr : Runs (At ind buf ae sc1) (At ind buf ae sc2) (visitConds sk o rest false) (renderConds ind rr false)) :
+    (hb : Runs (At (ind + 1) buf ae sc) (At (ind + 1) buf ae sc1) (walkBlock sk o body) (renderStmts (isEs6 o) (ind + 1) b))
+    (hr : Runs (At ind buf ae sc1) (At ind buf ae sc2) (visitConds sk o rest false) (renderConds (isEs6 o) ind rr false)) :
     Runs (At ind buf ae sc) (At ind buf ae sc2) (visitConds sk o (.cons p (some c) body rest) first)
-      (renderConds ind (.cons j b rr) first) := by
+      (renderConds (isEs6 o) ind (.cons j b rr) first) := by
   sunfold visitConds
   have h := walkExpr_renders sk o sc c j hj
   refine (Runs.seq (Runs.whenM (!first) (Runs.fx _)) (Runs.seq (Runs.seq (Runs.fx _) (Runs.seq (Runs.expr h) (Runs.fx _)))
@@ -530,9 +599,9 @@ theorem conds_some_runs (p : Nat) (c : Expr) (body : Block) (rest : CondList) (f
   cases first <;> simp [renderConds]
 
 theorem conds_else_runs (p : Nat) (body : Block) (first : Bool) (b : JsStmts) (sc1 : Scope)
-    (hb : Runs (At (ind + 1) buf ae sc) (At (ind + 1) buf ae sc1) (walkBlock sk o body) (renderStmts (ind + 1) b)) :
+    (hb : Runs (At (ind + 1) buf ae sc) (At (ind + 1) buf ae sc1) (walkBlock sk o body) (renderStmts (isEs6 o) (ind + 1) b)) :
     Runs (At ind buf ae sc) (At ind buf ae sc1) (visitConds sk o (.cons p none body .nil) first)
-      (renderConds ind (.els b) first) := by
+      (renderConds (isEs6 o) ind (.els b) first) := by
   sunfold visitConds
   refine (Runs.seq (Runs.whenM (!first) (Runs.fx _)) (Runs.seq Runs.pure
     (Runs.seq (Runs.fx _) (Runs.seq Runs.incIndent (Runs.seq hb (Runs.seq Runs.decIndent (Runs.seq Runs.indentP
@@ -678,17 +747,17 @@ variable (sk : List Bytes → List Bytes) (o : Options)
 variable {ind : Nat} {buf : Bytes} {ae : Autoescape} {sc : Scope}
 
 theorem body_runs (p : Nat) (cmds : CmdList) (st : JsStmts) (sc' : Scope)
-    (h : Runs (At ind buf ae sc) (At ind buf ae sc') (walkCmds sk o cmds) (renderStmts ind st)) :
-    Runs (At ind buf ae sc) (At ind buf ae sc') (walkBody sk o (.mk p cmds)) (renderStmts ind st) := by
+    (h : Runs (At ind buf ae sc) (At ind buf ae sc') (walkCmds sk o cmds) (renderStmts (isEs6 o) ind st)) :
+    Runs (At ind buf ae sc) (At ind buf ae sc') (walkBody sk o (.mk p cmds)) (renderStmts (isEs6 o) ind st) := by
   sunfold walkBody
   exact (Runs.seq Runs.atOther h).cast (by simp)
 
 theorem forc_none_runs (p : Nat) (v : Bytes) (list : Expr) (body : Block) (j : JsExpr) (rb : JsStmts × Scope)
     (hr : isRangeCall list = none) (hj : toAst sc list = some j)
     (hb : Runs (At (ind + 1) buf ae (sc.pushForEach v).2) (At (ind + 1) buf ae rb.2) (walkBody sk o body)
-      (renderStmts (ind + 1) rb.1)) :
+      (renderStmts (isEs6 o) (ind + 1) rb.1)) :
     Runs (At ind buf ae sc) (At ind buf ae rb.2.pop) (walkCmd sk o (.forc p v list body none))
-      (renderStmts ind (foreachStmts (sc.pushForEach v).1 j rb.1 none)) := by
+      (renderStmts (isEs6 o) ind (foreachStmts (sc.pushForEach v).1 j rb.1 none)) := by
   sunfold walkCmd
   mred
   rw [hr]
@@ -701,10 +770,10 @@ theorem forc_none_runs (p : Nat) (v : Bytes) (list : Expr) (body : Block) (j : J
 theorem forc_some_runs (p : Nat) (v : Bytes) (list : Expr) (body ie : Block) (j : JsExpr) (rb re : JsStmts × Scope)
     (hr : isRangeCall list = none) (hj : toAst sc list = some j)
     (hb : Runs (At (ind + 1 + 1) buf ae (sc.pushForEach v).2) (At (ind + 1 + 1) buf ae rb.2) (walkBody sk o body)
-      (renderStmts (ind + 1 + 1) rb.1))
-    (hie : Runs (At (ind + 1) buf ae rb.2.pop) (At (ind + 1) buf ae re.2) (walkBlock sk o ie) (renderStmts (ind + 1) re.1)) :
+      (renderStmts (isEs6 o) (ind + 1 + 1) rb.1))
+    (hie : Runs (At (ind + 1) buf ae rb.2.pop) (At (ind + 1) buf ae re.2) (walkBlock sk o ie) (renderStmts (isEs6 o) (ind + 1) re.1)) :
     Runs (At ind buf ae sc) (At ind buf ae re.2) (walkCmd sk o (.forc p v list body (some ie)))
-      (renderStmts ind (foreachStmts (sc.pushForEach v).1 j rb.1 (some re.1))) := by
+      (renderStmts (isEs6 o) ind (foreachStmts (sc.pushForEach v).1 j rb.1 (some re.1))) := by
   sunfold walkCmd
   mred
   rw [hr]
@@ -718,9 +787,9 @@ theorem forc_range_runs (p : Nat) (v : Bytes) (list : Expr) (body : Block) (args
     (jl ji jc : JsExpr) (rb : JsStmts × Scope) (hr : isRangeCall list = some args) (hl : rangeLimit args = some l)
     (hjl : toAst sc l = some jl) (hji : toAst sc (rangeInit args) = some ji) (hjc : toAst sc (rangeIncr args) = some jc)
     (hb : Runs (At (ind + 1) buf ae (sc.pushForRange v).2) (At (ind + 1) buf ae rb.2) (walkBody sk o body)
-      (renderStmts (ind + 1) rb.1)) :
+      (renderStmts (isEs6 o) (ind + 1) rb.1)) :
     Runs (At ind buf ae sc) (At ind buf ae rb.2.pop) (walkCmd sk o (.forc p v list body none))
-      (renderStmts ind (rangeStmts (sc.pushForRange v).1 jl ji jc rb.1)) := by
+      (renderStmts (isEs6 o) ind (rangeStmts (sc.pushForRange v).1 jl ji jc rb.1)) := by
   sunfold walkCmd
   mred
   rw [hr]
@@ -758,13 +827,13 @@ theorem labels_runs : ∀ (values : List Expr) (js : List JsExpr), astList sc va
         exact (Runs.seq (Runs.seq Runs.indentP (Runs.seq (Runs.fx _) (Runs.seq (Runs.expr h1) (Runs.seq (Runs.fx _) Runs.nl))))
           h2).cast (by simp)
 
-theorem cases_nil_runs : Runs (At ind buf ae sc) (At ind buf ae sc) (visitCases sk o .nil) (renderCases ind .nil) := by
+theorem cases_nil_runs : Runs (At ind buf ae sc) (At ind buf ae sc) (visitCases sk o .nil) (renderCases (isEs6 o) ind .nil) := by
   sunfold visitCases
   exact Runs.pure
 
 theorem cases_dflt_runs (p : Nat) (body : Block) (b : JsStmts) (sc1 : Scope)
-    (hb : Runs (At (ind + 1) buf ae sc) (At (ind + 1) buf ae sc1) (walkBlock sk o body) (renderStmts (ind + 1) b)) :
-    Runs (At ind buf ae sc) (At ind buf ae sc1) (visitCases sk o (.cons p [] body .nil)) (renderCases ind (.dflt b)) := by
+    (hb : Runs (At (ind + 1) buf ae sc) (At (ind + 1) buf ae sc1) (walkBlock sk o body) (renderStmts (isEs6 o) (ind + 1) b)) :
+    Runs (At ind buf ae sc) (At ind buf ae sc1) (visitCases sk o (.cons p [] body .nil)) (renderCases (isEs6 o) ind (.dflt b)) := by
   sunfold visitCases
   exact (Runs.seq Runs.pure (Runs.seq (Runs.whenTrue (Runs.seq Runs.indentP (Runs.seq (Runs.fx _) Runs.nl)))
     (Runs.seq Runs.incIndent (Runs.seq hb (Runs.seq Runs.indentP (Runs.seq (Runs.fx _) (Runs.seq Runs.nl
@@ -772,10 +841,10 @@ theorem cases_dflt_runs (p : Nat) (body : Block) (b : JsStmts) (sc1 : Scope)
 
 theorem cases_cons_runs (p : Nat) (v0 : Expr) (vr : List Expr) (body : Block) (rest : CaseList) (js : List JsExpr)
     (b : JsStmts) (rr : JsCases) (sc1 sc2 : Scope) (hjs : astList sc (v0 :: vr) = some js)
-    (hb : Runs (At (ind + 1) buf ae sc) (At (ind + 1) buf ae sc1) (walkBlock sk o body) (renderStmts (ind + 1) b))
-    (hr : Runs (At ind buf ae sc1) (At ind buf ae sc2) (visitCases sk o rest) (renderCases ind rr)) :
+    (hb : Runs (At (ind + 1) buf ae sc) (At (ind + 1) buf ae sc1) (walkBlock sk o body) (renderStmts (isEs6 o) (ind + 1) b))
+    (hr : Runs (At ind buf ae sc1) (At ind buf ae sc2) (visitCases sk o rest) (renderCases (isEs6 o) ind rr)) :
     Runs (At ind buf ae sc) (At ind buf ae sc2) (visitCases sk o (.cons p (v0 :: vr) body rest))
-      (renderCases ind (.cons js b rr)) := by
+      (renderCases (isEs6 o) ind (.cons js b rr)) := by
   sunfold visitCases
   exact (Runs.seq (labels_runs sk o (v0 :: vr) js hjs) (Runs.seq Runs.whenFalse
     (Runs.seq Runs.incIndent (Runs.seq hb (Runs.seq Runs.indentP (Runs.seq (Runs.fx _) (Runs.seq Runs.nl
@@ -783,8 +852,8 @@ theorem cases_cons_runs (p : Nat) (v0 : Expr) (vr : List Expr) (body : Block) (r
 
 theorem switch_runs (p : Nat) (value : Expr) (cases : CaseList) (j : JsExpr) (cs : JsCases) (sc' : Scope)
     (hj : toAst sc value = some j)
-    (h : Runs (At (ind + 1) buf ae sc) (At (ind + 1) buf ae sc') (visitCases sk o cases) (renderCases (ind + 1) cs)) :
-    Runs (At ind buf ae sc) (At ind buf ae sc') (walkCmd sk o (.switch p value cases)) (renderStmts ind (.one (.switchS j cs))) := by
+    (h : Runs (At (ind + 1) buf ae sc) (At (ind + 1) buf ae sc') (visitCases sk o cases) (renderCases (isEs6 o) (ind + 1) cs)) :
+    Runs (At ind buf ae sc) (At ind buf ae sc') (walkCmd sk o (.switch p value cases)) (renderStmts (isEs6 o) ind (.one (.switchS j cs))) := by
   sunfold walkCmd
   have hv := walkExpr_renders sk o sc value j hj
   exact (Runs.seq Runs.atOther (Runs.seq Runs.indentP (Runs.seq (Runs.fx _) (Runs.seq (Runs.expr hv) (Runs.seq (Runs.fx _)
@@ -797,14 +866,243 @@ theorem Runs.setBuf (buf' : Bytes) : Runs (At ind buf ae sc) (At ind buf' ae sc)
 
 theorem letContent_runs (p : Nat) (name : Bytes) (body : Block) (rb : JsStmts × Scope)
     (hb : Runs (At ind (sc.genname name).1 ae (sc.genname name).2) (At ind (sc.genname name).1 ae rb.2) (walkBlock sk o body)
-      (renderStmts ind rb.1)) :
+      (renderStmts (isEs6 o) ind rb.1)) :
     Runs (At ind buf ae sc) (At ind buf ae (rb.2.bind name (sc.genname name).1)) (walkCmd sk o (.letContent p name body))
-      (renderStmts ind (.cons (.varEmpty (sc.genname name).1) rb.1)) := by
+      (renderStmts (isEs6 o) ind (.cons (.varEmpty (sc.genname name).1) rb.1)) := by
   sunfold walkCmd
   refine (Runs.seq Runs.atOther (Runs.getBuf (Runs.getScope ?_))).cast (List.nil_append _)
   exact (Runs.seq (Runs.setScope _) (Runs.seq (Runs.setBuf _) (Runs.seq Runs.indentP (Runs.seq (Runs.fx _)
     (Runs.seq (Runs.emit _) (Runs.seq (Runs.fx _) (Runs.seq Runs.nl (Runs.seq hb (Runs.getBuf (Runs.getScope
       (Runs.seq (Runs.setScope _) (Runs.setBuf _)))))))))))).cast (by simp [renderStmts, renderStmt])
+
+end
+
+/-! ### call -/
+
+/-- `Runs` for a walk that returns a value -/
+def RunsV {α : Type} (P Q : St → Prop) (m : M α) (a : α) (ps : List Piece) : Prop :=
+  ∀ s, P s → ∃ s', m s = .ok (a, ps, s') ∧ Q s'
+
+theorem RunsV.pure {α : Type} {P : St → Prop} (a : α) : RunsV P P (pure a) a [] := fun s hs => ⟨s, rfl, hs⟩
+
+theorem RunsV.bind {α : Type} {P Q R : St → Prop} {m : M α} {k : α → M Unit} {a : α} {ps qs : List Piece}
+    (hm : RunsV P Q m a ps) (hk : Runs Q R (k a) qs) : Runs P R (m >>= k) (ps ++ qs) := by
+  intro s hs
+  obtain ⟨s1, h1, hs1⟩ := hm s hs
+  obtain ⟨s2, h2, hs2⟩ := hk s1 hs1
+  exact ⟨s2, by simp [Bind.bind, M.bind, h1, h2], hs2⟩
+
+theorem RunsV.bindV {α β : Type} {P Q R : St → Prop} {m : M α} {k : α → M β} {a : α} {b : β} {ps qs : List Piece}
+    (hm : RunsV P Q m a ps) (hk : RunsV Q R (k a) b qs) : RunsV P R (m >>= k) b (ps ++ qs) := by
+  intro s hs
+  obtain ⟨s1, h1, hs1⟩ := hm s hs
+  obtain ⟨s2, h2, hs2⟩ := hk s1 hs1
+  exact ⟨s2, by simp [Bind.bind, M.bind, h1, h2], hs2⟩
+
+theorem RunsV.seq {β : Type} {P Q R : St → Prop} {m : M Unit} {k : M β} {b : β} {ps qs : List Piece}
+    (hm : Runs P Q m ps) (hk : RunsV Q R k b qs) : RunsV P R (m >>= fun _ => k) b (ps ++ qs) := by
+  intro s hs
+  obtain ⟨s1, h1, hs1⟩ := hm s hs
+  obtain ⟨s2, h2, hs2⟩ := hk s1 hs1
+  exact ⟨s2, by simp [Bind.bind, M.bind, h1, h2], hs2⟩
+
+theorem RunsV.map {α β : Type} {P Q : St → Prop} {m : M α} {a : α} {ps : List Piece} (f : α → β)
+    (hm : RunsV P Q m a ps) : RunsV P Q (m >>= fun x => Pure.pure (f x)) (f a) ps := by
+  intro s hs
+  obtain ⟨s1, h1, hs1⟩ := hm s hs
+  exact ⟨s1, by simp [Bind.bind, M.bind, h1, Pure.pure, M.pure], hs1⟩
+
+theorem M.pure_bind {α β : Type} (a : α) (k : α → M β) : (Pure.pure a >>= k) = k a := by
+  funext s
+  simp only [Bind.bind, M.bind, Pure.pure, M.pure]
+  cases k a s with
+  | error e => rfl
+  | ok r => obtain ⟨b, qs, s2⟩ := r; simp
+
+theorem Runs.pureBind {α : Type} {P Q : St → Prop} {k : α → M Unit} {a : α} {ps : List Piece} (h : Runs P Q (k a) ps) :
+    Runs P Q (Pure.pure a >>= k) ps := by
+  intro s hs
+  obtain ⟨s', h', hq⟩ := h s hs
+  exact ⟨s', by simp [Bind.bind, M.bind, Pure.pure, M.pure, h'], hq⟩
+
+theorem RunsV.cast {α : Type} {P Q : St → Prop} {m : M α} {a a' : α} {ps qs : List Piece} (h : RunsV P Q m a ps)
+    (ea : a = a') (e : ps = qs) : RunsV P Q m a' qs := ea ▸ e ▸ h
+
+section
+variable (sk : List Bytes → List Bytes) (o : Options)
+variable {ind : Nat} {buf : Bytes} {ae : Autoescape} {sc : Scope}
+
+theorem RunsV.getBuf {β : Type} {Q : St → Prop} {k : Bytes → M β} {b : β} {ps : List Piece}
+    (h : RunsV (At ind buf ae sc) Q (k buf) b ps) : RunsV (At ind buf ae sc) Q (getBuf >>= k) b ps := by
+  intro s hs
+  obtain ⟨s', h', hq⟩ := h s hs
+  refine ⟨s', ?_, hq⟩
+  simp only [Bind.bind, M.bind, JsGen.getBuf, hs.2.1, h', List.nil_append]
+
+theorem RunsV.getScope {β : Type} {Q : St → Prop} {k : Scope → M β} {b : β} {ps : List Piece}
+    (h : RunsV (At ind buf ae sc) Q (k sc) b ps) : RunsV (At ind buf ae sc) Q (getScope >>= k) b ps := by
+  intro s hs
+  obtain ⟨s', h', hq⟩ := h s hs
+  refine ⟨s', ?_, hq⟩
+  simp only [Bind.bind, M.bind, JsGen.getScope, hs.2.2.2, h', List.nil_append]
+
+/-- `s.block(e)`: the text is the value; nothing is written -/
+theorem RunsV.block {m : M Unit} {ps : List Piece} (hm : RunsSc sc m ps) :
+    RunsV (At ind buf ae sc) (At ind buf ae sc) (block m) ps [] := by
+  intro s hs
+  obtain ⟨s1, h1, _, _⟩ := hm s hs.2.2.2
+  exact ⟨{ s with funcsCalled := s1.funcsCalled }, by simp only [JsGen.block, h1], hs.1, hs.2.1, hs.2.2.1, hs.2.2.2⟩
+
+theorem valueParamJoin_some {key : Bytes} {j : Option JsExpr} {rr r : Option (JsStmts × List (Bytes × JsExpr) × Scope)}
+    (h : valueParamJoin key j rr = r) (hr : r.isSome) :
+    ∃ j' rr', j = some j' ∧ rr = some rr' ∧ r = some (rr'.1, (key, j') :: rr'.2.1, rr'.2.2) := by
+  cases j <;> cases rr <;> simp [valueParamJoin] at h <;> subst h <;> simp at hr
+  exact ⟨_, _, rfl, rfl, rfl⟩
+
+theorem contentParamJoin_some {key g : Bytes} {rb : Option (JsStmts × Scope)}
+    {rest : Scope → Option (JsStmts × List (Bytes × JsExpr) × Scope)} {r : JsStmts × List (Bytes × JsExpr) × Scope}
+    (h : contentParamJoin key g rb rest = some r) :
+    ∃ rb' rr, rb = some rb' ∧ rest rb'.2 = some rr ∧
+      r = ((JsStmts.cons (.varEmpty g) rb'.1).append rr.1, (key, .local g) :: rr.2.1, rr.2.2) := by
+  cases rb with
+  | none => simp [contentParamJoin] at h
+  | some rb' =>
+    simp only [contentParamJoin] at h
+    cases hrr : rest rb'.2 with
+    | none => simp [hrr] at h
+    | some rr =>
+      simp only [hrr, Option.some.injEq] at h
+      exact ⟨rb', rr, rfl, hrr, h.symm⟩
+
+theorem callJoin_some {buf name : Bytes} {base : Option DataBase} {rp : Option (JsStmts × List (Bytes × JsExpr) × Scope)}
+    {r : JsStmts × Scope} (h : callJoin buf name base rp = some r) :
+    ∃ b rp', base = some b ∧ rp = some rp' ∧ r = (rp'.1.append (.one (.call buf name b rp'.2.1)), rp'.2.2) := by
+  cases base <;> cases rp <;> simp [callJoin] at h
+  exact ⟨_, _, rfl, rfl, h.symm⟩
+
+theorem params_nil_runs (first : Bool) (acc : List Piece) :
+    RunsV (At ind buf ae sc) (At ind buf ae sc) (visitParams sk o .nil first acc) (acc ++ kvPieces [] first)
+      (renderStmts (isEs6 o) ind .nil) := by
+  sunfold visitParams
+  refine (RunsV.pure acc).cast ?_ ?_
+  · simp [kvPieces]
+  · simp [renderStmts]
+
+theorem params_value_runs (p : Nat) (key : Bytes) (e : Expr) (rest : ParamList) (first : Bool) (acc : List Piece) (j : JsExpr)
+    (rr : JsStmts × List (Bytes × JsExpr) × Scope) (hj : toAst sc e = some j)
+    (hrest : ∀ acc', RunsV (At ind buf ae sc) (At ind buf ae rr.2.2) (visitParams sk o rest false acc')
+      (acc' ++ kvPieces rr.2.1 false) (renderStmts (isEs6 o) ind rr.1)) :
+    RunsV (At ind buf ae sc) (At ind buf ae rr.2.2) (visitParams sk o (.value p key e rest) first acc)
+      (acc ++ kvPieces ((key, j) :: rr.2.1) first) (renderStmts (isEs6 o) ind rr.1) := by
+  sunfold visitParams
+  refine (RunsV.bindV (RunsV.block (walkExpr_renders sk o sc e j hj))
+    (hrest (acc ++ (if first then [] else [.fixed b!", "]) ++ [.ident key, .fixed b!": "] ++ render j))).cast ?_ ?_
+  · simp [kvPieces]
+  · simp
+
+theorem params_content_runs (p : Nat) (key : Bytes) (body : Block) (rest : ParamList) (first : Bool) (acc : List Piece)
+    (rb : JsStmts × Scope) (rr : JsStmts × List (Bytes × JsExpr) × Scope)
+    (hb : Runs (At ind (sc.genname b!"param").1 ae (sc.genname b!"param").2) (At ind (sc.genname b!"param").1 ae rb.2)
+      (walkBlock sk o body) (renderStmts (isEs6 o) ind rb.1))
+    (hrest : ∀ acc', RunsV (At ind buf ae rb.2) (At ind buf ae rr.2.2) (visitParams sk o rest false acc')
+      (acc' ++ kvPieces rr.2.1 false) (renderStmts (isEs6 o) ind rr.1)) :
+    RunsV (At ind buf ae sc) (At ind buf ae rr.2.2) (visitParams sk o (.content p key body rest) first acc)
+      (acc ++ kvPieces ((key, .local (sc.genname b!"param").1) :: rr.2.1) first)
+      (renderStmts (isEs6 o) ind ((JsStmts.cons (.varEmpty (sc.genname b!"param").1) rb.1).append rr.1)) := by
+  sunfold visitParams
+  refine (RunsV.getBuf (RunsV.getScope (RunsV.seq (Runs.setScope _) (RunsV.seq (Runs.setBuf _) (RunsV.seq Runs.indentP (RunsV.seq (Runs.fx _) (RunsV.seq (Runs.emit _) (RunsV.seq (Runs.fx _) (RunsV.seq Runs.nl (RunsV.seq hb (RunsV.getBuf (RunsV.seq (Runs.setBuf _) (hrest _))))))))))))).cast ?_ ?_
+  · simp [kvPieces, render]
+  · simp [renderStmts_append, renderStmts, renderStmt]
+
+/-- the call itself, after the data argument `dps` has been put together -/
+theorem call_tail_runs (name : Bytes) (dps : List Piece) :
+    Runs (At ind buf ae sc) (At ind buf ae sc)
+      (do
+        let b ← getBuf
+        indentP
+        emit (.ident b); fx b!" += "
+        emit (if isEs6 o then .es6name name else .qname name)
+        fx b!"("; emits dps; fx b!", opt_sb, opt_ijData);"; nl
+        whenM (isEs6 o) (addCalled (es6Identifier name) (callImport name)))
+      ([.fixed (spaces ind), .ident buf, .fixed b!" += ", if isEs6 o then .es6name name else .qname name, .fixed b!"("] ++
+        dps ++ [.fixed b!", opt_sb, opt_ijData);", .fixed [10]]) := by
+  exact (Runs.getBuf (Runs.seq Runs.indentP (Runs.seq (Runs.emit _) (Runs.seq (Runs.fx _) (Runs.seq (Runs.emit _) (Runs.seq (Runs.fx _) (Runs.seq (Runs.emits _) (Runs.seq (Runs.fx _) (Runs.seq Runs.nl (Runs.whenM _ (Runs.addCalled _ _))))))))))).cast (by simp)
+
+theorem call_runs (p : Nat) (name : Bytes) (allData : Bool) (data : Option Expr) (params : ParamList) (base : DataBase)
+    (rp : JsStmts × List (Bytes × JsExpr) × Scope) (hbase : callBase sc allData data = some base)
+    (htp : toParams ae params sc = some rp)
+    (hp : ∀ acc, RunsV (At ind buf ae sc) (At ind buf ae rp.2.2) (visitParams sk o params true acc)
+      (acc ++ kvPieces rp.2.1 true) (renderStmts (isEs6 o) ind rp.1)) :
+    Runs (At ind buf ae sc) (At ind buf ae rp.2.2) (walkCmd sk o (.call p name allData data params))
+      (renderStmts (isEs6 o) ind (rp.1.append (.one (.call buf name base rp.2.1)))) := by
+  have hr : renderStmts (isEs6 o) ind (rp.1.append (.one (.call buf name base rp.2.1))) =
+      renderStmts (isEs6 o) ind rp.1 ++
+        ([.fixed (spaces ind), .ident buf, .fixed b!" += ", if isEs6 o then .es6name name else .qname name, .fixed b!"("] ++
+          dataPieces base rp.2.1 ++ [.fixed b!", opt_sb, opt_ijData);", .fixed [10]]) := by
+    rw [renderStmts_append, renderStmts_one]; simp [renderStmt]
+  rw [hr]
+  cases data with
+  | none =>
+    have hb : basePieces base = (if allData then [.fixed b!"opt_data"] else [.fixed b!"{}"]) := by
+      cases allData <;> simp [callBase] at hbase <;> subst hbase <;> rfl
+    cases params with
+    | nil =>
+      simp only [toParams, Option.some.injEq] at htp; subst htp
+      sunfold walkCmd
+      mred
+      refine (Runs.seq Runs.atOther (Runs.pureBind (Runs.pureBind (call_tail_runs o name _)))).cast ?_
+      simp [dataPieces, hb, renderStmts]
+    | value p' key e rest =>
+      unfold toParams at htp
+      obtain ⟨j', rr', _, _, hrp⟩ := valueParamJoin_some htp rfl
+      simp only [Option.some.injEq] at hrp
+      sunfold walkCmd
+      mred
+      simp only [M.pure_bind]
+      apply Runs.cast
+      · exact Runs.seq Runs.atOther (RunsV.bind (RunsV.map (fun acc => acc ++ [.fixed b!"})"]) (hp _))
+          (call_tail_runs o name _))
+      · rw [hrp]; simp [dataPieces, hb]
+    | content p' key body rest =>
+      unfold toParams at htp
+      obtain ⟨rb', rr', _, _, hrp⟩ := contentParamJoin_some htp
+      sunfold walkCmd
+      mred
+      simp only [M.pure_bind]
+      apply Runs.cast
+      · exact Runs.seq Runs.atOther (RunsV.bind (RunsV.map (fun acc => acc ++ [.fixed b!"})"]) (hp _))
+          (call_tail_runs o name _))
+      · rw [hrp]; simp [dataPieces, hb]
+  | some d =>
+    obtain ⟨jd, hjd, hb⟩ : ∃ jd, toAst sc d = some jd ∧ basePieces base = render jd := by
+      cases allData <;> simp [callBase] at hbase
+      obtain ⟨jd, hjd, rfl⟩ := hbase
+      exact ⟨jd, hjd, rfl⟩
+    cases params with
+    | nil =>
+      simp only [toParams, Option.some.injEq] at htp; subst htp
+      sunfold walkCmd
+      mred
+      refine (Runs.seq Runs.atOther (RunsV.bind (RunsV.block (walkExpr_renders sk o sc d jd hjd))
+        (Runs.pureBind (call_tail_runs o name _)))).cast ?_
+      simp [dataPieces, hb, renderStmts]
+    | value p' key e rest =>
+      unfold toParams at htp
+      obtain ⟨j', rr', _, _, hrp⟩ := valueParamJoin_some htp rfl
+      simp only [Option.some.injEq] at hrp
+      sunfold walkCmd
+      mred
+      refine (Runs.seq Runs.atOther (RunsV.bind (RunsV.block (walkExpr_renders sk o sc d jd hjd))
+        (RunsV.bind (RunsV.map (fun acc => acc ++ [.fixed b!"})"]) (hp _)) (call_tail_runs o name _)))).cast ?_
+      rw [hrp]; simp [dataPieces, hb]
+    | content p' key body rest =>
+      unfold toParams at htp
+      obtain ⟨rb', rr', _, _, hrp⟩ := contentParamJoin_some htp
+      sunfold walkCmd
+      mred
+      refine (Runs.seq Runs.atOther (RunsV.bind (RunsV.block (walkExpr_renders sk o sc d jd hjd))
+        (RunsV.bind (RunsV.map (fun acc => acc ++ [.fixed b!"})"]) (hp _)) (call_tail_runs o name _)))).cast ?_
+      rw [hrp]; simp [dataPieces, hb]
 
 end
 
@@ -818,7 +1116,7 @@ mutual
       scope `sc` (any indentation, buffer `buf`, autoescape mode `ae`) the generator writes exactly the
       text of the translation and ends in the scope the translation computes -/
   theorem walkCmd_renders : ∀ (c : Cmd) (buf : Bytes) (sc : Scope) (r : JsStmts × Scope), toCmd ae buf c sc = some r →
-      ∀ ind, Runs (At ind buf ae sc) (At ind buf ae r.2) (walkCmd sk o c) (renderStmts ind r.1)
+      ∀ ind, Runs (At ind buf ae sc) (At ind buf ae r.2) (walkCmd sk o c) (renderStmts (isEs6 o) ind r.1)
     | .rawText p t, buf, sc, r, h, ind => by
       simp only [toCmd, Option.some.injEq] at h; subst h
       exact rawText_runs sk o p t
@@ -877,7 +1175,10 @@ mutual
         simp only [Option.some.injEq] at h; subst h
         exact switch_runs sk o p value cases j rc.1 rc.2 hj (visitCases_renders cases buf sc rc hrc (ind + 1))
       · cases h
-    | .call .., _, _, _, h, _ => by simp [toCmd] at h
+    | .call p name allData data params, buf, sc, r, h, ind => by
+      unfold toCmd at h
+      obtain ⟨b, rp, hb, hrp, rfl⟩ := callJoin_some h
+      exact call_runs sk o p name allData data params b rp hb hrp (fun acc => visitParams_renders params true acc buf sc rp hrp ind)
     | .letContent p name body, buf, sc, r, h, ind => by
       unfold toCmd at h
       obtain ⟨_, rbv, hrb, rfl⟩ := letJoin_some h
@@ -886,8 +1187,26 @@ mutual
     | .namespace .., _, _, _, h, _ => by simp [toCmd] at h
     | .template .., _, _, _, h, _ => by simp [toCmd] at h
     | .soyDoc .., _, _, _, h, _ => by simp [toCmd] at h
+  theorem visitParams_renders : ∀ (ps : ParamList) (first : Bool) (acc : List Piece) (buf : Bytes) (sc : Scope)
+      (r : JsStmts × List (Bytes × JsExpr) × Scope), toParams ae ps sc = some r →
+      ∀ ind, RunsV (At ind buf ae sc) (At ind buf ae r.2.2) (visitParams sk o ps first acc) (acc ++ kvPieces r.2.1 first)
+        (renderStmts (isEs6 o) ind r.1)
+    | .nil, first, acc, buf, sc, r, h, ind => by
+      simp only [toParams, Option.some.injEq] at h; subst h
+      exact params_nil_runs sk o first acc
+    | .value p key e rest, first, acc, buf, sc, r, h, ind => by
+      unfold toParams at h
+      obtain ⟨j, rr, hj, hrr, hr⟩ := valueParamJoin_some h rfl
+      simp only [Option.some.injEq] at hr; subst hr
+      exact params_value_runs sk o p key e rest first acc j rr hj
+        (fun acc' => visitParams_renders rest false acc' buf sc rr hrr ind)
+    | .content p key body rest, first, acc, buf, sc, r, h, ind => by
+      unfold toParams at h
+      obtain ⟨rb, rr, hrb, hrr, rfl⟩ := contentParamJoin_some h
+      exact params_content_runs sk o p key body rest first acc rb rr (walkBlock_renders body _ _ rb hrb ind)
+        (fun acc' => visitParams_renders rest false acc' buf rb.2 rr hrr ind)
   theorem visitCases_renders : ∀ (cs : CaseList) (buf : Bytes) (sc : Scope) (r : JsCases × Scope), toCases ae buf cs sc = some r →
-      ∀ ind, Runs (At ind buf ae sc) (At ind buf ae r.2) (visitCases sk o cs) (renderCases ind r.1)
+      ∀ ind, Runs (At ind buf ae sc) (At ind buf ae r.2) (visitCases sk o cs) (renderCases (isEs6 o) ind r.1)
     | .nil, buf, sc, r, h, ind => by
       simp only [toCases, Option.some.injEq] at h; subst h
       exact cases_nil_runs sk o
@@ -912,12 +1231,12 @@ mutual
           exact cases_cons_runs sk o p v0 vr body _ js rbv.1 rr.1 rbv.2 rr.2 hjs
             (walkBlock_renders body buf sc rbv hrb (ind + 1)) (visitCases_renders (.cons p2 v2 b2 r2) buf rbv.2 rr hrr ind)
   theorem walkBody_renders : ∀ (b : Block) (buf : Bytes) (sc : Scope) (r : JsStmts × Scope), toBody ae buf b sc = some r →
-      ∀ ind, Runs (At ind buf ae sc) (At ind buf ae r.2) (walkBody sk o b) (renderStmts ind r.1)
+      ∀ ind, Runs (At ind buf ae sc) (At ind buf ae r.2) (walkBody sk o b) (renderStmts (isEs6 o) ind r.1)
     | .mk p cmds, buf, sc, r, h, ind => by
       unfold toBody at h
       exact body_runs sk o p cmds r.1 r.2 (walkCmds_renders cmds buf sc r h ind)
   theorem walkBlock_renders : ∀ (b : Block) (buf : Bytes) (sc : Scope) (r : JsStmts × Scope), toBlock ae buf b sc = some r →
-      ∀ ind, Runs (At ind buf ae sc) (At ind buf ae r.2) (walkBlock sk o b) (renderStmts ind r.1)
+      ∀ ind, Runs (At ind buf ae sc) (At ind buf ae r.2) (walkBlock sk o b) (renderStmts (isEs6 o) ind r.1)
     | .mk p cmds, buf, sc, r, h, ind => by
       unfold toBlock at h
       split at h
@@ -926,7 +1245,7 @@ mutual
         exact block_runs sk o p cmds rc.1 rc.2 (walkCmds_renders cmds buf sc.push rc hrc ind)
       · cases h
   theorem walkCmds_renders : ∀ (cs : CmdList) (buf : Bytes) (sc : Scope) (r : JsStmts × Scope), toCmds ae buf cs sc = some r →
-      ∀ ind, Runs (At ind buf ae sc) (At ind buf ae r.2) (walkCmds sk o cs) (renderStmts ind r.1)
+      ∀ ind, Runs (At ind buf ae sc) (At ind buf ae r.2) (walkCmds sk o cs) (renderStmts (isEs6 o) ind r.1)
     | .nil, buf, sc, r, h, ind => by
       simp only [toCmds, Option.some.injEq] at h; subst h
       exact cmds_nil_runs sk o
@@ -942,7 +1261,7 @@ mutual
           exact cmds_cons_runs sk o c rest r1.1 r2.1 r1.2 r2.2 (walkCmd_renders c buf sc r1 h1 ind)
             (walkCmds_renders rest buf r1.2 r2 h2 ind)
   theorem visitConds_renders : ∀ (cs : CondList) (buf : Bytes) (sc : Scope) (r : JsConds × Scope), toConds ae buf cs sc = some r →
-      ∀ (first : Bool) ind, Runs (At ind buf ae sc) (At ind buf ae r.2) (visitConds sk o cs first) (renderConds ind r.1 first)
+      ∀ (first : Bool) ind, Runs (At ind buf ae sc) (At ind buf ae r.2) (visitConds sk o cs first) (renderConds (isEs6 o) ind r.1 first)
     | .nil, buf, sc, r, h, first, ind => by
       simp only [toConds, Option.some.injEq] at h; subst h
       exact conds_nil_runs sk o first
@@ -975,9 +1294,16 @@ end
 abbrev SEnv := Spec.Eval.Env
 open SoyVerif.Spec.Eval (Val Out)
 
+/-- what a `{call}` needs of the specification (the section variables of Spec/Eval.renderCmd): the registry, the data
+    the template was entered with (`data="all"`), and the callee's rendering, one call level down -/
+structure RefCtx where
+  reg : Registry.Reg
+  entry : Spec.Eval.Binds
+  call : Registry.Tmpl → Spec.Eval.CallEnv → Out Bytes
+
 section
 -- `F name args x`: what the library function the generator writes for `|name:args` computes from `x`
-variable (F : Bytes → List Expr → JVal → JOut) (ae : Autoescape)
+variable (F : Bytes → List Expr → JVal → JOut) (R : RefCtx) (ae : Autoescape)
 
 /-- strict in an abrupt argument -/
 def liftF (name : Bytes) (args : List Expr) (x : JOut) : JOut := x.bind (F name args)
@@ -995,6 +1321,17 @@ def refPrint (dirs : List Directive) (v : Val) : Out Bytes :=
       | none => .unspec)
     | some .error => .error
     | _ => .unspec
+
+/-- the data a call passes on before its params: the caller's entry data (`data="all"`), the map `data="$e"`
+    evaluates to, or nothing -/
+def refBase (allData : Bool) (data : Option Expr) (env : SEnv) : Out Spec.Eval.Binds :=
+  if allData then .val R.entry
+  else match data with
+    | some e => (Spec.Eval.eval env e).bind fun v =>
+      match v with
+      | .map kvs => .val kvs
+      | _ => .error
+    | none => .val []
 
 mutual
   /-- Spec/Eval.renderCmd on the fragment (lexical scoping: what a block binds is visible inside only) -/
@@ -1017,7 +1354,21 @@ mutual
     | .switch _ value cases, env =>
       (Spec.Eval.eval env value).bind fun sv => (refCases cases sv env).bind fun out => .val (out, env)
     | .letContent _ name body, env => (refBlock body env).bind fun out => .val ([], env.bind name (.str out))
+    | .call _ name allData data params, env =>
+      match Registry.lookup R.reg name with
+      | none => .error
+      | some callee =>
+        (refBase R allData data env).bind fun b =>
+          (refParams params env).bind fun ps =>
+            (R.call callee { entry := ps ++ b, ij := env.ij, globals := env.globals }).bind fun out => .val (out, env)
     | _, _ => .unspec
+  /-- the call's params, in the caller's environment (later ones first in the result) -/
+  def refParams : ParamList → SEnv → Out Spec.Eval.Binds
+    | .nil, _ => .val []
+    | .value _ key e rest, env =>
+      (Spec.Eval.eval env e).bind fun v => (refParams rest env).bind fun r => .val (r ++ [(key, v)])
+    | .content _ key body rest, env =>
+      (refBlock body env).bind fun out => (refParams rest env).bind fun r => .val (r ++ [(key, .str out)])
   def refBlock : Block → SEnv → Out Bytes
     | .mk _ cmds, env => refCmds cmds env
   def refCmds : CmdList → SEnv → Out Bytes
@@ -1416,7 +1767,11 @@ mutual
         obtain ⟨h1, h2⟩ := toCases_scope cases buf sc rc hrc hs
         exact ⟨scOk_of_stack hs h1 h2, by simp only [h1], h2⟩
       · cases h
-    | .call .., _, _, _, h, _ => by simp [toCmd] at h
+    | .call p name allData data params, buf, sc, r, h, hs => by
+      unfold toCmd at h
+      obtain ⟨b, rp, _, hrp, rfl⟩ := callJoin_some h
+      obtain ⟨a1, a2⟩ := toParams_scope params sc rp hrp hs
+      exact ⟨scOk_of_stack hs a1 a2, by simp only [a1], a2⟩
     | .letContent p name body, buf, sc, r, h, hs => by
       unfold toCmd at h
       obtain ⟨hname, rbv, hrb, rfl⟩ := letJoin_some h
@@ -1429,6 +1784,24 @@ mutual
     | .namespace .., _, _, _, h, _ => by simp [toCmd] at h
     | .template .., _, _, _, h, _ => by simp [toCmd] at h
     | .soyDoc .., _, _, _, h, _ => by simp [toCmd] at h
+  theorem toParams_scope : ∀ (ps : ParamList) (sc : Scope) (r : JsStmts × List (Bytes × JsExpr) × Scope),
+      toParams ae ps sc = some r → ScOk sc → r.2.2.stack = sc.stack ∧ sc.n ≤ r.2.2.n
+    | .nil, sc, r, h, hs => by
+      simp only [toParams, Option.some.injEq] at h; subst h
+      exact ⟨rfl, Nat.le_refl _⟩
+    | .value p key e rest, sc, r, h, hs => by
+      unfold toParams at h
+      obtain ⟨j, rr, _, hrr, hr⟩ := valueParamJoin_some h rfl
+      simp only [Option.some.injEq] at hr; subst hr
+      exact toParams_scope rest sc rr hrr hs
+    | .content p key body rest, sc, r, h, hs => by
+      unfold toParams at h
+      obtain ⟨rb, rr, hrb, hrr, rfl⟩ := contentParamJoin_some h
+      have hs' : ScOk (sc.genname b!"param").2 := scOk_of_stack hs rfl (Nat.le_succ _)
+      obtain ⟨a1, a2⟩ := toBlock_scope body _ _ rb hrb hs'
+      have a2' : sc.n + 1 ≤ rb.2.n := a2
+      obtain ⟨b1, b2⟩ := toParams_scope rest rb.2 rr hrr (scOk_of_stack hs' a1 a2)
+      exact ⟨b1.trans a1, Nat.le_trans (Nat.le_succ _) (Nat.le_trans a2' b2)⟩
   theorem toCases_scope : ∀ (cs : CaseList) (buf : Bytes) (sc : Scope) (r : JsCases × Scope), toCases ae buf cs sc = some r → ScOk sc →
       r.2.stack = sc.stack ∧ sc.n ≤ r.2.n
     | .nil, buf, sc, r, h, hs => by
@@ -1585,7 +1958,11 @@ mutual
     | .css .., _, _, _, h, _, _, _ => by simp [toCmd] at h
     | .debugger .., _, _, _, h, _, _, _ => by simp [toCmd] at h
     | .log .., _, _, _, h, _, _, _ => by simp [toCmd] at h
-    | .call .., _, _, _, h, _, _, _ => by simp [toCmd] at h
+    | .call p name allData data params, buf, sc, r, h, hs, g, hg => by
+      unfold toCmd at h
+      obtain ⟨b, rp, _, hrp, rfl⟩ := callJoin_some h
+      obtain ⟨a1, a2⟩ := toParams_scope ae params sc rp hrp hs
+      exact goodBuf_of_stack hg a1 a2
     | .headerParam .., _, _, _, h, _, _, _ => by simp [toCmd] at h
     | .namespace .., _, _, _, h, _, _, _ => by simp [toCmd] at h
     | .template .., _, _, _, h, _, _, _ => by simp [toCmd] at h
@@ -1702,9 +2079,9 @@ theorem loopRel_keep {buf : Bytes} {sc sc' : Scope} {env : SEnv} {jenv jenv' : J
 
 /-- the relation survives everything `Keeps` allows, in every scope with the same frames -/
 theorem envRel_keep {buf : Bytes} {sc sc' : Scope} {env : SEnv} {jenv jenv' : JEnv} {lo : Nat}
-    (hrel : EnvRel sc env jenv) (hk : Keeps buf lo jenv jenv') (hb : Bounded sc) (hlo : sc.n ≤ lo)
-    (hfr : Fresh sc buf) (hst : sc'.stack = sc.stack) : EnvRel sc' env jenv' := by
-  refine ⟨?_, loopRel_keep hrel.2 hk hb hlo hfr hst⟩
+    (hrel : EnvRel ent sc env jenv) (hk : Keeps buf lo jenv jenv') (hb : Bounded sc) (hlo : sc.n ≤ lo)
+    (hfr : Fresh sc buf) (hst : sc'.stack = sc.stack) : EnvRel ent sc' env jenv' := by
+  refine ⟨?_, loopRel_keep hrel.2.1 hk hb hlo hfr hst, by rw [hk.1]; exact hrel.2.2⟩
   intro k hkij hkd
   have hl : sc'.lookup k = sc.lookup k := by simp [Scope.lookup, hst]
   rw [hl]
@@ -1724,19 +2101,19 @@ theorem envRel_keep {buf : Bytes} {sc sc' : Scope} {env : SEnv} {jenv jenv' : JE
     · exact hfr f0 hf0 _ hm
     · exact old_jsname hkd (Or.inl rfl) (by omega)
 
-theorem envRel_stack {sc sc' : Scope} {env : SEnv} {jenv : JEnv} (hrel : EnvRel sc env jenv) (hst : sc'.stack = sc.stack) :
-    EnvRel sc' env jenv := by
-  refine ⟨?_, ?_⟩
+theorem envRel_stack {sc sc' : Scope} {env : SEnv} {jenv : JEnv} (hrel : EnvRel ent sc env jenv) (hst : sc'.stack = sc.stack) :
+    EnvRel ent sc' env jenv := by
+  refine ⟨?_, ?_, hrel.2.2⟩
   · intro k hkij hkd
     have hl : sc'.lookup k = sc.lookup k := by simp [Scope.lookup, hst]
     rw [hl]
     exact hrel.1 k hkij hkd
   · intro v f hf
     rw [hst] at hf
-    exact hrel.2 v f hf
+    exact hrel.2.1 v f hf
 
-theorem envRel_push {sc : Scope} {env : SEnv} {jenv : JEnv} (hrel : EnvRel sc env jenv) : EnvRel sc.push env jenv := by
-  refine ⟨?_, ?_⟩
+theorem envRel_push {sc : Scope} {env : SEnv} {jenv : JEnv} (hrel : EnvRel ent sc env jenv) : EnvRel ent sc.push env jenv := by
+  refine ⟨?_, ?_, hrel.2.2⟩
   · intro k hk hd
     have : sc.push.lookup k = sc.lookup k := by simp [Scope.push, Scope.lookup, Scope.lookupIn, frameGet?]
     rw [this]
@@ -1745,7 +2122,7 @@ theorem envRel_push {sc : Scope} {env : SEnv} {jenv : JEnv} (hrel : EnvRel sc en
     have : Scope.loopFrame sc.push.stack v = Scope.loopFrame sc.stack v := by
       simp [Scope.push, Scope.loopFrame, frameGet?]
     rw [this] at hf
-    exact hrel.2 v f hf
+    exact hrel.2.1 v f hf
 
 /-- a frame in which a Soy name was (re)bound: the loops do not see it -/
 theorem loopFrame_setTop (st : List Frame) (x g v : Bytes) (hx : x.contains 36 = false) :
@@ -1835,18 +2212,18 @@ theorem eachFrame_step (sc : Scope) (v : Bytes) (hv : v.contains 36 = false) :
 
 /-- entering an iteration of a foreach: the item is bound to its fresh local, the loop is the innermost one -/
 theorem envRel_foreach_iter {sc : Scope} (hs : ScOk sc) (v : Bytes) (hv : v.contains 36 = false) (env : SEnv) (e : JEnv)
-    (hrel : EnvRel sc env e) (item : Val) (jitem : JVal) (hitem : toJsV item = some jitem) (i last : Nat) (n : Int)
+    (hrel : EnvRel ent sc env e) (item : Val) (jitem : JVal) (hitem : toJsV item = some jitem) (i last : Nat) (n : Int)
     (hexi : SoyVerif.Spec.JsSem.exact (i : Int) = true) (hn : n = (last : Int) + 1)
     (h2 : e.locals.find? (·.1 == Scope.jsname v b!"Limit" (sc.n + 1)) = some (Scope.jsname v b!"Limit" (sc.n + 1), .num n))
     (h3 : e.locals.find? (·.1 == Scope.jsname v b!"Index" (sc.n + 1)) = some (Scope.jsname v b!"Index" (sc.n + 1), .num i)) :
-    EnvRel (sc.pushForEach v).2 { (env.bind v item) with loops := (v, i, last) :: env.loops }
+    EnvRel ent (sc.pushForEach v).2 { (env.bind v item) with loops := (v, i, last) :: env.loops }
       (setLocal e (Scope.jsname v [] (sc.n + 1)) jitem) := by
   have u0 : IsUse [] := Or.inl rfl
   have uN : IsUse b!"Limit" := Or.inr (Or.inr (Or.inl rfl))
   have uI : IsUse b!"Index" := Or.inr (Or.inr (Or.inr (Or.inl rfl)))
   have hd : ∀ {u u' : Bytes}, IsUse u → IsUse u' → u ≠ u' → Scope.jsname v u (sc.n + 1) ≠ Scope.jsname v u' (sc.n + 1) :=
     fun hu hu' hne e => hne (jsname_inj_all hv hv hu hu' e).2.1
-  refine ⟨C04c.envRel_foreach sc env e (bounded_shape hs.2) v hv item jitem hrel.1 hitem, ?_⟩
+  refine ⟨C04c.envRel_foreach sc env e (bounded_shape hs.2) v hv item jitem hrel.1 hitem, ?_, hrel.2.2⟩
   intro v' f hf
   rw [pushForEach_stack] at hf
   simp only [Scope.loopFrame, eachFrame_index sc v v' hv] at hf
@@ -1871,7 +2248,7 @@ theorem envRel_foreach_iter {sc : Scope} (hs : ScOk sc) (v : Bytes) (hv : v.cont
       exact C04c.localNum_of_find h2
   · have hvv' : (v == v') = false := by simpa using hvv
     simp only [hvv', Bool.false_eq_true, if_false] at hf
-    obtain ⟨i', last', hfl, hfr⟩ := hrel.2 v' f hf
+    obtain ⟨i', last', hfl, hfr⟩ := hrel.2.1 v' f hf
     have hmem := SoyVerif.Lemmas.JsGenSafe.loopFrame_mem sc.stack v' f hf
     refine ⟨i', last', by simp [Spec.Eval.findLoop, hvv', hfl], frameRel_congr (fun _ _ => rfl) ?_ hfr⟩
     intro k y hky
@@ -1936,21 +2313,21 @@ theorem sres_bind_ok {r : SRes} {k : JEnv → SRes} {e : JEnv} (h : r.bind k = .
   | unspec => cases h
 
 section
-variable (F : Bytes → List Expr → JVal → JOut) (fuel : Nat)
+variable (F : Bytes → List Expr → JVal → JOut) (G : Bytes → JVal → JOut) (fuel : Nat)
 
 theorem execStmts_append : ∀ (a b : JsStmts) (env : JEnv),
-    execStmts F fuel (a.append b) env = (execStmts F fuel a env).bind (execStmts F fuel b)
+    execStmts F G fuel (a.append b) env = (execStmts F G fuel a env).bind (execStmts F G fuel b)
   | .nil, b, env => by simp [JsStmts.append, execStmts, SRes.bind]
   | .cons s r, b, env => by
     simp only [JsStmts.append, execStmts]
-    cases execStmt F fuel s env with
+    cases execStmt F G fuel s env with
     | ok e1 => simp only [SRes.bind]; exact execStmts_append r b e1
     | error => rfl
     | unspec => rfl
 
-theorem execStmts_one (s : JsStmt) (env : JEnv) : execStmts F fuel (.one s) env = execStmt F fuel s env := by
+theorem execStmts_one (s : JsStmt) (env : JEnv) : execStmts F G fuel (.one s) env = execStmt F G fuel s env := by
   simp only [JsStmts.one, execStmts]
-  cases execStmt F fuel s env <;> rfl
+  cases execStmt F G fuel s env <;> rfl
 
 /-- `buf += v` on a string buffer: ToString of `v` is appended -/
 theorem appendTo_ok {buf : Bytes} {jenv jenv' : JEnv} {out : Bytes} {v : JVal} (hb : BufIs buf jenv out)
@@ -2006,41 +2383,41 @@ end
 /-! ### the induction: one lemma per node kind -/
 
 section
-variable (F : Bytes → List Expr → JVal → JOut) (ae : Autoescape) (buf : Bytes)
+variable (F : Bytes → List Expr → JVal → JOut) (G : Bytes → JVal → JOut) (R : RefCtx) (ae : Autoescape) (buf : Bytes)
 
 def CmdOk (c : Cmd) : Prop :=
   ∀ (fuel : Nat) (sc : Scope) (r : JsStmts × Scope) (env : SEnv) (jenv jenv' : JEnv) (out : Bytes),
-    toCmd ae buf c sc = some r → ScOk sc → GoodBuf sc buf → EnvRel sc env jenv → BufIs buf jenv out →
-    execStmts F fuel r.1 jenv = .ok jenv' →
-    ∃ text env', refCmd F ae c env = .val (text, env') ∧ EnvRel r.2 env' jenv' ∧ BufIs buf jenv' (out ++ text) ∧
+    toCmd ae buf c sc = some r → ScOk sc → GoodBuf sc buf → EnvRel R.entry sc env jenv → BufIs buf jenv out →
+    execStmts F G fuel r.1 jenv = .ok jenv' →
+    ∃ text env', refCmd F R ae c env = .val (text, env') ∧ EnvRel R.entry r.2 env' jenv' ∧ BufIs buf jenv' (out ++ text) ∧
       Keeps buf sc.n jenv jenv'
 
 def BlockOk (b : Block) : Prop :=
   ∀ (fuel : Nat) (sc : Scope) (r : JsStmts × Scope) (env : SEnv) (jenv jenv' : JEnv) (out : Bytes),
-    toBlock ae buf b sc = some r → ScOk sc → GoodBuf sc buf → EnvRel sc env jenv → BufIs buf jenv out →
-    execStmts F fuel r.1 jenv = .ok jenv' →
-    ∃ text, refBlock F ae b env = .val text ∧ BufIs buf jenv' (out ++ text) ∧ Keeps buf sc.n jenv jenv'
+    toBlock ae buf b sc = some r → ScOk sc → GoodBuf sc buf → EnvRel R.entry sc env jenv → BufIs buf jenv out →
+    execStmts F G fuel r.1 jenv = .ok jenv' →
+    ∃ text, refBlock F R ae b env = .val text ∧ BufIs buf jenv' (out ++ text) ∧ Keeps buf sc.n jenv jenv'
 
 def CmdsOk (cs : CmdList) : Prop :=
   ∀ (fuel : Nat) (sc : Scope) (r : JsStmts × Scope) (env : SEnv) (jenv jenv' : JEnv) (out : Bytes),
-    toCmds ae buf cs sc = some r → ScOk sc → GoodBuf sc buf → EnvRel sc env jenv → BufIs buf jenv out →
-    execStmts F fuel r.1 jenv = .ok jenv' →
-    ∃ text, refCmds F ae cs env = .val text ∧ BufIs buf jenv' (out ++ text) ∧ Keeps buf sc.n jenv jenv'
+    toCmds ae buf cs sc = some r → ScOk sc → GoodBuf sc buf → EnvRel R.entry sc env jenv → BufIs buf jenv out →
+    execStmts F G fuel r.1 jenv = .ok jenv' →
+    ∃ text, refCmds F R ae cs env = .val text ∧ BufIs buf jenv' (out ++ text) ∧ Keeps buf sc.n jenv jenv'
 
 def CondsOk (cs : CondList) : Prop :=
   ∀ (fuel : Nat) (sc : Scope) (r : JsConds × Scope) (env : SEnv) (jenv jenv' : JEnv) (out : Bytes),
-    toConds ae buf cs sc = some r → ScOk sc → GoodBuf sc buf → EnvRel sc env jenv → BufIs buf jenv out →
-    execConds F fuel r.1 jenv = .ok jenv' →
-    ∃ text, refConds F ae cs env = .val text ∧ BufIs buf jenv' (out ++ text) ∧ Keeps buf sc.n jenv jenv'
+    toConds ae buf cs sc = some r → ScOk sc → GoodBuf sc buf → EnvRel R.entry sc env jenv → BufIs buf jenv out →
+    execConds F G fuel r.1 jenv = .ok jenv' →
+    ∃ text, refConds F R ae cs env = .val text ∧ BufIs buf jenv' (out ++ text) ∧ Keeps buf sc.n jenv jenv'
 
 def CasesOk (cs : CaseList) : Prop :=
   ∀ (fuel : Nat) (sc : Scope) (r : JsCases × Scope) (env : SEnv) (jenv jenv' : JEnv) (out : Bytes) (sv : Val) (jv : JVal),
-    toCases ae buf cs sc = some r → ScOk sc → GoodBuf sc buf → EnvRel sc env jenv → BufIs buf jenv out → toJsV sv = some jv →
-    execCases F fuel r.1 jv jenv = .ok jenv' →
-    ∃ text, refCases F ae cs sv env = .val text ∧ BufIs buf jenv' (out ++ text) ∧ Keeps buf sc.n jenv jenv'
+    toCases ae buf cs sc = some r → ScOk sc → GoodBuf sc buf → EnvRel R.entry sc env jenv → BufIs buf jenv out → toJsV sv = some jv →
+    execCases F G fuel r.1 jv jenv = .ok jenv' →
+    ∃ text, refCases F R ae cs sv env = .val text ∧ BufIs buf jenv' (out ++ text) ∧ Keeps buf sc.n jenv jenv'
 
 
-theorem rawText_ok (p : Nat) (t : Bytes) : CmdOk F ae buf (.rawText p t) := by
+theorem rawText_ok (p : Nat) (t : Bytes) : CmdOk F G R ae buf (.rawText p t) := by
   intro fuel sc r env jenv jenv' out h hs hg hrel hb hx
   simp only [toCmd, Option.some.injEq] at h; subst h
   rw [execStmts_one] at hx
@@ -2051,7 +2428,7 @@ theorem rawText_ok (p : Nat) (t : Bytes) : CmdOk F ae buf (.rawText p t) := by
   refine ⟨t, env, by simp [refCmd], ?_, bufIs_setBuf _ _ _, keeps_setBuf _ _ _ _⟩
   exact envRel_keep hrel (keeps_setBuf buf sc.n jenv _) hs.2 (Nat.le_refl _) hg.2 rfl
 
-theorem print_ok (p : Nat) (arg : Expr) (dirs : List Directive) : CmdOk F ae buf (.print p arg dirs) := by
+theorem print_ok (p : Nat) (arg : Expr) (dirs : List Directive) : CmdOk F G R ae buf (.print p arg dirs) := by
   intro fuel sc r env jenv jenv' out h hs hg hrel hb hx
   unfold toCmd at h
   split at h
@@ -2074,7 +2451,7 @@ theorem print_ok (p : Nat) (arg : Expr) (dirs : List Directive) : CmdOk F ae buf
     · cases h
   · cases h
 
-theorem letValue_ok (p : Nat) (x : Bytes) (e : Expr) : CmdOk F ae buf (.letValue p x e) := by
+theorem letValue_ok (p : Nat) (x : Bytes) (e : Expr) : CmdOk F G R ae buf (.letValue p x e) := by
   intro fuel sc r env jenv jenv' out h hs hgood hrel hb hx
   unfold toCmd at h
   split at h
@@ -2098,8 +2475,8 @@ theorem letValue_ok (p : Nat) (x : Bytes) (e : Expr) : CmdOk F ae buf (.letValue
         have hgb : (sc.makevar x).1 ≠ buf := fun e' =>
           hgood.1 x [] (sc.n + 1) hxd' (Or.inl rfl) (Nat.lt_succ_self _) e'.symm
         refine ⟨[], env.bind x v, by simp [refCmd, hv, Spec.Eval.Out.bind], ?_, ?_, ?_⟩
-        · refine ⟨C04c.envRel_let sc env jenv f st hst (bounded_shape hbd) x hxd' v jv hrel.1 hvj, ?_⟩
-          exact loopRel_setTop hrel.2 x _ hxd' _ (fun f0 hf0 kv hkv => localNum_congr (find_setLocal_ne jenv _ _ jv
+        · refine ⟨C04c.envRel_let sc env jenv f st hst (bounded_shape hbd) x hxd' v jv hrel.1 hvj, ?_, hrel.2.2⟩
+          exact loopRel_setTop hrel.2.1 x _ hxd' _ (fun f0 hf0 kv hkv => localNum_congr (find_setLocal_ne jenv _ _ jv
             ((hbd f0 hf0 kv hkv).2 x [] (sc.n + 1) hxd' (Or.inl rfl) (Nat.lt_succ_self _)))) rfl
         · unfold BufIs
           rw [find_setLocal_ne jenv _ buf jv hgb.symm, List.append_nil]
@@ -2109,7 +2486,7 @@ theorem letValue_ok (p : Nat) (x : Bytes) (e : Expr) : CmdOk F ae buf (.letValue
           exact find_setLocal_ne jenv _ g jv (hn x [] (sc.n + 1) hxd' (Or.inl rfl) (Nat.lt_succ_self _))
     · cases h
 
-theorem ifc_ok (p : Nat) (conds : CondList) (ih : CondsOk F ae buf conds) : CmdOk F ae buf (.ifc p conds) := by
+theorem ifc_ok (p : Nat) (conds : CondList) (ih : CondsOk F G R ae buf conds) : CmdOk F G R ae buf (.ifc p conds) := by
   intro fuel sc r env jenv jenv' out h hs hg hrel hb hx
   unfold toCmd at h
   split at h
@@ -2126,26 +2503,26 @@ theorem ifc_ok (p : Nat) (conds : CondList) (ih : CondsOk F ae buf conds) : CmdO
 theorem lookup_push (sc : Scope) (k : Bytes) : sc.push.lookup k = sc.lookup k := by
   simp [Scope.push, Scope.lookup, Scope.lookupIn, frameGet?]
 
-theorem block_ok (p : Nat) (cmds : CmdList) (ih : CmdsOk F ae buf cmds) : BlockOk F ae buf (.mk p cmds) := by
+theorem block_ok (p : Nat) (cmds : CmdList) (ih : CmdsOk F G R ae buf cmds) : BlockOk F G R ae buf (.mk p cmds) := by
   intro fuel sc r env jenv jenv' out h hs hg hrel hb hx
   unfold toBlock at h
   split at h
   · rename_i rc hrc
     simp only [Option.some.injEq] at h; subst h
-    have hrel' : EnvRel sc.push env jenv := envRel_push hrel
+    have hrel' : EnvRel R.entry sc.push env jenv := envRel_push hrel
     obtain ⟨text, ht, hb', hk⟩ := ih fuel sc.push rc env jenv jenv' out hrc (scOk_push hs.2) (goodBuf_push hg) hrel' hb hx
     exact ⟨text, by simp only [refBlock]; exact ht, hb', hk⟩
   · cases h
 
-theorem cmds_nil_ok : CmdsOk F ae buf .nil := by
+theorem cmds_nil_ok : CmdsOk F G R ae buf .nil := by
   intro fuel sc r env jenv jenv' out h hs hg hrel hb hx
   simp only [toCmds, Option.some.injEq] at h; subst h
   simp only [execStmts, SRes.ok.injEq] at hx
   subst hx
   exact ⟨[], by simp [refCmds], by simpa using hb, Keeps.refl _ _ _⟩
 
-theorem cmds_cons_ok (c : Cmd) (rest : CmdList) (ih1 : CmdOk F ae buf c) (ih2 : CmdsOk F ae buf rest) :
-    CmdsOk F ae buf (.cons c rest) := by
+theorem cmds_cons_ok (c : Cmd) (rest : CmdList) (ih1 : CmdOk F G R ae buf c) (ih2 : CmdsOk F G R ae buf rest) :
+    CmdsOk F G R ae buf (.cons c rest) := by
   intro fuel sc r env jenv jenv' out h hs hg hrel hb hx
   unfold toCmds at h
   split at h
@@ -2163,15 +2540,15 @@ theorem cmds_cons_ok (c : Cmd) (rest : CmdList) (ih1 : CmdOk F ae buf c) (ih2 : 
       refine ⟨t1 ++ t2, ?_, by rw [← List.append_assoc]; exact hb2, hk1.trans hk2 a3⟩
       simp [refCmds, ht1, ht2, Spec.Eval.Out.bind]
 
-theorem conds_nil_ok : CondsOk F ae buf .nil := by
+theorem conds_nil_ok : CondsOk F G R ae buf .nil := by
   intro fuel sc r env jenv jenv' out h hs hg hrel hb hx
   simp only [toConds, Option.some.injEq] at h; subst h
   simp only [execConds, SRes.ok.injEq] at hx
   subst hx
   exact ⟨[], by simp [refConds], by simpa using hb, Keeps.refl _ _ _⟩
 
-theorem conds_some_ok (p : Nat) (c : Expr) (body : Block) (rest : CondList) (ih1 : BlockOk F ae buf body)
-    (ih2 : CondsOk F ae buf rest) : CondsOk F ae buf (.cons p (some c) body rest) := by
+theorem conds_some_ok (p : Nat) (c : Expr) (body : Block) (rest : CondList) (ih1 : BlockOk F G R ae buf body)
+    (ih2 : CondsOk F G R ae buf rest) : CondsOk F G R ae buf (.cons p (some c) body rest) := by
   intro fuel sc r env jenv jenv' out h hs hg hrel hb hx
   unfold toConds at h
   simp only at h
@@ -2198,8 +2575,8 @@ theorem conds_some_ok (p : Nat) (c : Expr) (body : Block) (rest : CondList) (ih1
     · cases h
   · cases h
 
-theorem conds_else_ok (p : Nat) (body : Block) (rest : CondList) (ih1 : BlockOk F ae buf body) :
-    CondsOk F ae buf (.cons p none body rest) := by
+theorem conds_else_ok (p : Nat) (body : Block) (rest : CondList) (ih1 : BlockOk F G R ae buf body) :
+    CondsOk F G R ae buf (.cons p none body rest) := by
   intro fuel sc r env jenv jenv' out h hs hg hrel hb hx
   unfold toConds at h
   simp only at h
@@ -2233,7 +2610,7 @@ theorem strictEq_corr {a b : Val} {ja jb : JVal} {c : Bool} (ha : toJsV a = some
   all_goals simp [Spec.Eval.equalsV]
 
 /-- the labels: `matchLabels` on the translation is `matchAny` -/
-theorem matchLabels_corr {sc : Scope} {env : SEnv} {jenv : JEnv} (hrel : EnvRel sc env jenv) {sv : Val} {jv : JVal}
+theorem matchLabels_corr {sc : Scope} {env : SEnv} {jenv : JEnv} (hrel : EnvRel ent sc env jenv) {sv : Val} {jv : JVal}
     (hsv : toJsV sv = some jv) : ∀ (values : List Expr) (js : List JsExpr) (b : Bool), astList sc values = some js →
     matchLabels jenv jv js = some (.inr b) → Spec.Eval.matchAny env sv values = .val b
   | [], js, b, h, hm => by
@@ -2271,15 +2648,15 @@ theorem matchLabels_corr {sc : Scope} {env : SEnv} {jenv : JEnv} (hrel : EnvRel 
         | error => simp [hw] at hm
         | unspec => simp [hw] at hm
 
-theorem cases_nil_ok : CasesOk F ae buf .nil := by
+theorem cases_nil_ok : CasesOk F G R ae buf .nil := by
   intro fuel sc r env jenv jenv' out sv jv h hs hg hrel hb hsv hx
   simp only [toCases, Option.some.injEq] at h; subst h
   simp only [execCases, SRes.ok.injEq] at hx
   subst hx
   exact ⟨[], by simp [refCases], by simpa using hb, Keeps.refl _ _ _⟩
 
-theorem cases_cons_ok (p : Nat) (values : List Expr) (body : Block) (rest : CaseList) (ih1 : BlockOk F ae buf body)
-    (ih2 : CasesOk F ae buf rest) : CasesOk F ae buf (.cons p values body rest) := by
+theorem cases_cons_ok (p : Nat) (values : List Expr) (body : Block) (rest : CaseList) (ih1 : BlockOk F G R ae buf body)
+    (ih2 : CasesOk F G R ae buf rest) : CasesOk F G R ae buf (.cons p values body rest) := by
   intro fuel sc r env jenv jenv' out sv jv h hs hg hrel hb hsv hx
   unfold toCases at h
   obtain ⟨rbv, hrb, hc⟩ := caseJoin_some h
@@ -2308,8 +2685,8 @@ theorem cases_cons_ok (p : Nat) (values : List Expr) (body : Block) (rest : Case
             (envRel_stack hrel a1) hb hsv hx
           exact ⟨text, by simp [refCases, hem, hany, Spec.Eval.Out.bind, ht], hb', hk.mono a2⟩
 
-theorem switch_ok (p : Nat) (value : Expr) (cases : CaseList) (ih : CasesOk F ae buf cases) :
-    CmdOk F ae buf (.switch p value cases) := by
+theorem switch_ok (p : Nat) (value : Expr) (cases : CaseList) (ih : CasesOk F G R ae buf cases) :
+    CmdOk F G R ae buf (.switch p value cases) := by
   intro fuel sc r env jenv jenv' out h hs hg hrel hb hx
   unfold toCmd at h
   split at h
@@ -2360,11 +2737,11 @@ theorem indexVar_eval {e : JEnv} {xl xi : Bytes} {js : List JVal} {i : Nat}
 /-- the IH for a loop body: as for a block, in the frame the loop opened -/
 def BodyOk (b : Block) : Prop :=
   ∀ (fuel : Nat) (sc : Scope) (r : JsStmts × Scope) (env : SEnv) (jenv jenv' : JEnv) (out : Bytes),
-    toBody ae buf b sc = some r → ScOk sc → GoodBuf sc buf → EnvRel sc env jenv → BufIs buf jenv out →
-    execStmts F fuel r.1 jenv = .ok jenv' →
-    ∃ text, refBlock F ae b env = .val text ∧ BufIs buf jenv' (out ++ text) ∧ Keeps buf sc.n jenv jenv'
+    toBody ae buf b sc = some r → ScOk sc → GoodBuf sc buf → EnvRel R.entry sc env jenv → BufIs buf jenv out →
+    execStmts F G fuel r.1 jenv = .ok jenv' →
+    ∃ text, refBlock F R ae b env = .val text ∧ BufIs buf jenv' (out ++ text) ∧ Keeps buf sc.n jenv jenv'
 
-theorem body_ok (p : Nat) (cmds : CmdList) (ih : CmdsOk F ae buf cmds) : BodyOk F ae buf (.mk p cmds) := by
+theorem body_ok (p : Nat) (cmds : CmdList) (ih : CmdsOk F G R ae buf cmds) : BodyOk F G R ae buf (.mk p cmds) := by
   intro fuel sc r env jenv jenv' out h hs hg hrel hb hx
   unfold toBody at h
   obtain ⟨text, ht, hb', hk⟩ := ih fuel sc r env jenv jenv' out h hs hg hrel hb hx
@@ -2372,18 +2749,18 @@ theorem body_ok (p : Nat) (cmds : CmdList) (ih : CmdsOk F ae buf cmds) : BodyOk 
 
 /-- the iterations from index `i` on: the JavaScript loop and `loopSpec` agree -/
 theorem loop_ok {sc : Scope} (hs : ScOk sc) (hg : GoodBuf sc buf) (v : Bytes) (hv : v.contains 36 = false) (body : Block)
-    (rb : JsStmts × Scope) (hrb : toBody ae buf body (sc.pushForEach v).2 = some rb) (ihb : BodyOk F ae buf body)
+    (rb : JsStmts × Scope) (hrb : toBody ae buf body (sc.pushForEach v).2 = some rb) (ihb : BodyOk F G R ae buf body)
     (env : SEnv) (xs : List Val) (js : List JVal) (hxs : C04c.toJsList xs = some js) (fuel last : Nat)
     (hexl : SoyVerif.Spec.JsSem.exact (js.length : Int) = true) (hlast : xs ≠ [] → xs.length = last + 1)
     (lv xl xn xi : Bytes) (hlv : lv = Scope.jsname v [] (sc.n + 1)) (hxl : xl = Scope.jsname v b!"List" (sc.n + 1))
     (hxn : xn = Scope.jsname v b!"Limit" (sc.n + 1)) (hxi : xi = Scope.jsname v b!"Index" (sc.n + 1)) :
     ∀ (rest : List Val) (i : Nat), xs.drop i = rest → ∀ (k : Nat) (e e' : JEnv) (out : Bytes),
-      EnvRel sc env e → BufIs buf e out →
+      EnvRel R.entry sc env e → BufIs buf e out →
       e.locals.find? (·.1 == xl) = some (xl, .arr js) →
       e.locals.find? (·.1 == xn) = some (xn, .num js.length) →
       e.locals.find? (·.1 == xi) = some (xi, .num i) →
-      execLoop (execStmts F fuel (.cons (.varIndex lv xl xi) rb.1)) xi xn k e = .ok e' →
-      ∃ text, Spec.Eval.loopSpec (refBlock F ae body) env v last rest i = .val text ∧
+      execLoop (execStmts F G fuel (.cons (.varIndex lv xl xi) rb.1)) xi xn k e = .ok e' →
+      ∃ text, Spec.Eval.loopSpec (refBlock F R ae body) env v last rest i = .val text ∧
         BufIs buf e' (out ++ text) ∧ Keeps buf sc.n e e' := by
   have uL : IsUse b!"List" := Or.inr (Or.inl rfl)
   have uN : IsUse b!"Limit" := Or.inr (Or.inr (Or.inl rfl))
@@ -2457,7 +2834,7 @@ theorem loop_ok {sc : Scope} (hs : ScOk sc) (hg : GoodBuf sc buf) (v : Bytes) (h
         have := C04c.toJsList_getD xs js i hxs
         rw [List.getD_eq_getElem?_getD, List.getElem?_eq_getElem hlt, Option.getD_some, hitem] at this
         exact this
-      have hrel_a : EnvRel (sc.pushForEach v).2
+      have hrel_a : EnvRel R.entry (sc.pushForEach v).2
           { (env.bind v item) with loops := (v, i, last) :: env.loops } (setLocal e lv (js.getD i .undefined)) := by
         have hne : xs ≠ [] := by intro e0; rw [e0] at hlt; cases hlt
         rw [hlv]
@@ -2587,15 +2964,15 @@ theorem pushForRange_lookup (sc : Scope) (x k : Bytes) (hk : k.contains 36 = fal
 /-- inside a range loop: the loop variable is held by its local, the loop is the innermost one, everything else as
     outside -/
 theorem envRel_forrange (sc : Scope) (env : SEnv) (e : JEnv) (x : Bytes) (hx : x.contains 36 = false) (a s l : Int)
-    (idx last : Nat) (hrel : EnvRel sc env e) (ha : SoyVerif.Spec.JsSem.exact a = true)
+    (idx last : Nat) (hrel : EnvRel ent sc env e) (ha : SoyVerif.Spec.JsSem.exact a = true)
     (hexi : SoyVerif.Spec.JsSem.exact (idx : Int) = true)
     (hfind : e.locals.find? (·.1 == Scope.jsname x [] (sc.n + 1)) = some (Scope.jsname x [] (sc.n + 1), .num a))
     (hfs : e.locals.find? (·.1 == Scope.jsname x b!"Step" (sc.n + 1)) = some (Scope.jsname x b!"Step" (sc.n + 1), .num s))
     (hfl : e.locals.find? (·.1 == Scope.jsname x b!"Limit" (sc.n + 1)) = some (Scope.jsname x b!"Limit" (sc.n + 1), .num l))
     (hfi : e.locals.find? (·.1 == Scope.jsname x b!"Index" (sc.n + 1)) = some (Scope.jsname x b!"Index" (sc.n + 1), .num idx))
     (hdec : decide (l ≤ a + s) = (idx == last)) :
-    EnvRel (sc.pushForRange x).2 { (env.bind x (.int a)) with loops := (x, idx, last) :: env.loops } e := by
-  refine ⟨?_, ?_⟩
+    EnvRel ent (sc.pushForRange x).2 { (env.bind x (.int a)) with loops := (x, idx, last) :: env.loops } e := by
+  refine ⟨?_, ?_, hrel.2.2⟩
   · intro k hk hd
     rw [pushForRange_lookup sc x k hd]
     by_cases hkx : (x == k) = true
@@ -2634,7 +3011,7 @@ theorem envRel_forrange (sc : Scope) (env : SEnv) (e : JEnv) (x : Bytes) (hx : x
         exact ⟨a, s, l, C04c.localNum_of_find hfind, C04c.localNum_of_find hfs, C04c.localNum_of_find hfl, hdec⟩
     · have hvv' : (x == v') = false := by simpa using hvv
       simp only [hvv', Bool.false_eq_true, if_false] at hf
-      obtain ⟨i', last', hfl', hfr⟩ := hrel.2 v' f hf
+      obtain ⟨i', last', hfl', hfr⟩ := hrel.2.1 v' f hf
       exact ⟨i', last', by simp [Spec.Eval.findLoop, hvv', hfl'], hfr⟩
 
 theorem applyFn_range (args : List Val) : Spec.Eval.applyFn b!"range" args =
@@ -2680,19 +3057,19 @@ theorem range_eval (env : SEnv) (p : Nat) (args : ExprList) (l : Expr) (a lim st
 /-- the iterations from value `a` (iteration number `idx`) on: the JavaScript loop and `loopSpec` over the rest of
     the range agree -/
 theorem range_loop_ok {sc : Scope} (hs : ScOk sc) (hg : GoodBuf sc buf) (v : Bytes) (hv : v.contains 36 = false) (body : Block)
-    (rb : JsStmts × Scope) (hrb : toBody ae buf body (sc.pushForRange v).2 = some rb) (ihb : BodyOk F ae buf body)
+    (rb : JsStmts × Scope) (hrb : toBody ae buf body (sc.pushForRange v).2 = some rb) (ihb : BodyOk F G R ae buf body)
     (env : SEnv) (l s : Int) (hspos : 0 < s) (fuel last : Nat)
     (lv xn xs xi : Bytes) (hlv : lv = Scope.jsname v [] (sc.n + 1)) (hxn : xn = Scope.jsname v b!"Limit" (sc.n + 1))
     (hxs : xs = Scope.jsname v b!"Step" (sc.n + 1)) (hxi : xi = Scope.jsname v b!"Index" (sc.n + 1)) :
     ∀ (k : Nat) (a : Int) (idx : Nat) (e e' : JEnv) (out : Bytes),
       SoyVerif.Spec.JsSem.exact a = true → SoyVerif.Spec.JsSem.exact (idx : Int) = true →
-      (a < l → idx + (rangeItems a l s).length = last + 1) → EnvRel sc env e → BufIs buf e out →
+      (a < l → idx + (rangeItems a l s).length = last + 1) → EnvRel R.entry sc env e → BufIs buf e out →
       e.locals.find? (·.1 == xn) = some (xn, .num l) →
       e.locals.find? (·.1 == xs) = some (xs, .num s) →
       e.locals.find? (·.1 == xi) = some (xi, .num idx) →
       e.locals.find? (·.1 == lv) = some (lv, .num a) →
-      execLoopStep (execStmts F fuel rb.1) lv xn xs xi k e = .ok e' →
-      ∃ text, Spec.Eval.loopSpec (refBlock F ae body) env v last (rangeItems a l s) idx = .val text ∧
+      execLoopStep (execStmts F G fuel rb.1) lv xn xs xi k e = .ok e' →
+      ∃ text, Spec.Eval.loopSpec (refBlock F R ae body) env v last (rangeItems a l s) idx = .val text ∧
         BufIs buf e' (out ++ text) ∧ Keeps buf sc.n e e' := by
   have uN : IsUse b!"Limit" := Or.inr (Or.inr (Or.inl rfl))
   have uS : IsUse b!"Step" := Or.inr (Or.inr (Or.inr (Or.inr rfl)))
@@ -2740,7 +3117,7 @@ theorem range_loop_ok {sc : Scope} (hs : ScOk sc) (hg : GoodBuf sc buf) (v : Byt
           have e1 : decide (l ≤ a + s) = true := by simp; omega
           have e2 : (idx == last) = true := by simp; omega
           rw [e1, e2]
-      have hrel_a : EnvRel (sc.pushForRange v).2
+      have hrel_a : EnvRel R.entry (sc.pushForRange v).2
           { (env.bind v (.int a)) with loops := (v, idx, last) :: env.loops } e :=
         envRel_forrange sc env e v hv a s l idx last hrel hexa hexi (by rw [← hlv]; exact h3) (by rw [← hxs]; exact hst)
           (by rw [← hxn]; exact h2) (by rw [← hxi]; exact hix) hdec
@@ -2824,11 +3201,11 @@ theorem loop_first {body : JEnv → SRes} {i lim step idx : Bytes} {k : Nat} {e 
     cases vi <;> cases vl <;> simp [binop] at hc
     exact ⟨_, _, rfl, rfl⟩
 
-theorem range_ok (p : Nat) (v : Bytes) (list : Expr) (body : Block) (ihb : BodyOk F ae buf body) :
+theorem range_ok (p : Nat) (v : Bytes) (list : Expr) (body : Block) (ihb : BodyOk F G R ae buf body) :
     ∀ (fuel : Nat) (sc : Scope) (r : JsStmts × Scope) (env : SEnv) (jenv jenv' : JEnv) (out : Bytes),
-      rangeJoin v list sc (toBody ae buf body (sc.pushForRange v).2) true = some r → ScOk sc → GoodBuf sc buf → EnvRel sc env jenv →
-      BufIs buf jenv out → execStmts F fuel r.1 jenv = .ok jenv' →
-      ∃ text env', refCmd F ae (.forc p v list body none) env = .val (text, env') ∧ EnvRel r.2 env' jenv' ∧
+      rangeJoin v list sc (toBody ae buf body (sc.pushForRange v).2) true = some r → ScOk sc → GoodBuf sc buf → EnvRel R.entry sc env jenv →
+      BufIs buf jenv out → execStmts F G fuel r.1 jenv = .ok jenv' →
+      ∃ text env', refCmd F R ae (.forc p v list body none) env = .val (text, env') ∧ EnvRel R.entry r.2 env' jenv' ∧
         BufIs buf jenv' (out ++ text) ∧ Keeps buf sc.n jenv jenv' := by
   intro fuel sc r env jenv jenv' out h hs hg hrel hb hx
   obtain ⟨hv, _, args, l, c, jl, ji, rbv, pc, hr, hl, hinc, hpos, hjl, hji, hrb, rfl⟩ := rangeJoin_some h
@@ -2914,7 +3291,7 @@ theorem range_ok (p : Nat) (v : Bytes) (list : Expr) (body : Block) (ihb : BodyO
     rw [find_setLocal_ne _ _ buf _ (nb _ uI).symm, find_setLocal_ne _ _ buf _ (nb _ u0).symm,
       find_setLocal_ne _ _ buf _ (nb _ uS).symm, find_setLocal_ne _ _ buf _ (nb _ uN).symm]
     exact hb
-  obtain ⟨text, ht, hb', hk'⟩ := range_loop_ok F ae buf hs hg v hv body rbv hrb ihb env lim c hpos fuel
+  obtain ⟨text, ht, hb', hk'⟩ := range_loop_ok F G R ae buf hs hg v hv body rbv hrb ihb env lim c hpos fuel
     ((rangeItems a lim c).length - 1) _ _ _ _ rfl rfl rfl rfl fuel a 0 _ e3 out hexa (by decide)
     (fun hlt => by rw [rangeItems_step a lim c hpos hlt]; simp) hrel4 hb4 fN fS (find_setLocal_eq _ _ _) fV h3
   have hk := k1234.trans hk' (Nat.le_refl _)
@@ -2933,23 +3310,23 @@ theorem range_ok (p : Nat) (v : Bytes) (list : Expr) (body : Block) (ihb : BodyO
     simp [refCmd, hev, hitems, Spec.Eval.Out.bind]
   | cons x xs' =>
     rw [hitems] at ht
-    have ht' : Spec.Eval.loopSpec (refBlock F ae body) env v xs'.length (x :: xs') 0 = .val text := by simpa using ht
+    have ht' : Spec.Eval.loopSpec (refBlock F R ae body) env v xs'.length (x :: xs') 0 = .val text := by simpa using ht
     simp [refCmd, hev, hitems, Spec.Eval.Out.bind, ht']
 
 /-- `var xList = list; var xLimit = xList.length;` and then the loop -/
 theorem foreach_core {sc : Scope} (hs : ScOk sc) (hg : GoodBuf sc buf) (v : Bytes) (hv : v.contains 36 = false) (list : Expr) (j : JsExpr)
     (hj : toAst sc list = some j) (body : Block) (rb : JsStmts × Scope)
-    (hrb : toBody ae buf body (sc.pushForEach v).2 = some rb) (ihb : BodyOk F ae buf body)
-    (env : SEnv) (jenv : JEnv) (out : Bytes) (hrel : EnvRel sc env jenv) (hb : BufIs buf jenv out) (fuel : Nat)
+    (hrb : toBody ae buf body (sc.pushForEach v).2 = some rb) (ihb : BodyOk F G R ae buf body)
+    (env : SEnv) (jenv : JEnv) (out : Bytes) (hrel : EnvRel R.entry sc env jenv) (hb : BufIs buf jenv out) (fuel : Nat)
     (lv xl xn xi : Bytes) (hlv : lv = Scope.jsname v [] (sc.n + 1)) (hxl : xl = Scope.jsname v b!"List" (sc.n + 1))
     (hxn : xn = Scope.jsname v b!"Limit" (sc.n + 1)) (hxi : xi = Scope.jsname v b!"Index" (sc.n + 1))
-    (e1 e2 : JEnv) (h1 : execStmt F fuel (.var xl j) jenv = .ok e1) (h2 : execStmt F fuel (.varLength xn xl) e1 = .ok e2) :
+    (e1 e2 : JEnv) (h1 : execStmt F G fuel (.var xl j) jenv = .ok e1) (h2 : execStmt F G fuel (.varLength xn xl) e1 = .ok e2) :
     ∃ xs js, Spec.Eval.eval env list = .val (.list xs) ∧ C04c.toJsList xs = some js ∧
-      SoyVerif.Spec.JsSem.exact (js.length : Int) = true ∧ EnvRel sc env e2 ∧ BufIs buf e2 out ∧ Keeps buf sc.n jenv e2 ∧
+      SoyVerif.Spec.JsSem.exact (js.length : Int) = true ∧ EnvRel R.entry sc env e2 ∧ BufIs buf e2 out ∧ Keeps buf sc.n jenv e2 ∧
       e2 = setLocal (setLocal jenv xl (.arr js)) xn (.num js.length) ∧
       e2.locals.find? (·.1 == xn) = some (xn, .num js.length) ∧
-      (∀ e', execStmt F fuel (.forUp xi xn (.cons (.varIndex lv xl xi) rb.1)) e2 = .ok e' →
-        ∃ text, Spec.Eval.loopSpec (refBlock F ae body) env v (xs.length - 1) xs 0 = .val text ∧
+      (∀ e', execStmt F G fuel (.forUp xi xn (.cons (.varIndex lv xl xi) rb.1)) e2 = .ok e' →
+        ∃ text, Spec.Eval.loopSpec (refBlock F R ae body) env v (xs.length - 1) xs 0 = .val text ∧
           BufIs buf e' (out ++ text) ∧ Keeps buf sc.n e2 e') := by
   have uL : IsUse b!"List" := Or.inr (Or.inl rfl)
   have uN : IsUse b!"Limit" := Or.inr (Or.inr (Or.inl rfl))
@@ -3002,7 +3379,7 @@ theorem foreach_core {sc : Scope} (hs : ScOk sc) (hg : GoodBuf sc buf) (v : Byte
     unfold BufIs
     rw [find_setLocal_ne _ xi buf _ (by rw [hxi]; exact (nb _ uI).symm)]
     exact hb2
-  obtain ⟨text, ht, hb', hk'⟩ := loop_ok F ae buf hs hg v hv body rb hrb ihb env xs js hxs fuel (xs.length - 1) hexl
+  obtain ⟨text, ht, hb', hk'⟩ := loop_ok F G R ae buf hs hg v hv body rb hrb ihb env xs js hxs fuel (xs.length - 1) hexl
     (fun hne => by have := List.length_pos_iff.mpr hne; omega)
     lv xl xn xi hlv hxl hxn hxi xs 0 (List.drop_zero) fuel _ e' out hrel3 hb3
     (by rw [find_setLocal_ne _ xi xl _ ne_xi_xl, find_setLocal_ne _ xn xl _ ne_xn_xl]; exact find_setLocal_eq _ _ _)
@@ -3010,13 +3387,13 @@ theorem foreach_core {sc : Scope} (hs : ScOk sc) (hg : GoodBuf sc buf) (v : Byte
     (find_setLocal_eq _ _ _) hx
   exact ⟨text, ht, hb', k3.trans hk' (Nat.le_refl _)⟩
 
-theorem forc_none_ok (p : Nat) (v : Bytes) (list : Expr) (body : Block) (ihb : BodyOk F ae buf body) :
-    CmdOk F ae buf (.forc p v list body none) := by
+theorem forc_none_ok (p : Nat) (v : Bytes) (list : Expr) (body : Block) (ihb : BodyOk F G R ae buf body) :
+    CmdOk F G R ae buf (.forc p v list body none) := by
   intro fuel sc r env jenv jenv' out h hs hg hrel hb hx
   have hscope := toCmd_scope ae _ buf sc r h hs
   unfold toCmd at h
   rcases loopJoin_some h with h | h
-  case inr => exact range_ok F ae buf p v list body ihb fuel sc r env jenv jenv' out h hs hg hrel hb hx
+  case inr => exact range_ok F G R ae buf p v list body ihb fuel sc r env jenv jenv' out h hs hg hrel hb hx
   obtain ⟨hv, _, j, rbv, hj, hrb, he⟩ := forcJoin_some h
   simp only at he
   subst he
@@ -3026,7 +3403,7 @@ theorem forc_none_ok (p : Nat) (v : Bytes) (list : Expr) (body : Block) (ihb : B
   obtain ⟨e3, h3, hx⟩ := sres_bind_ok hx
   simp only [SRes.ok.injEq] at hx
   subst hx
-  obtain ⟨xs, js, hev, hxs, _, _, _, k12, _, _, hloop⟩ := foreach_core F ae buf hs hg v hv list j hj body rbv hrb ihb env jenv out
+  obtain ⟨xs, js, hev, hxs, _, _, _, k12, _, _, hloop⟩ := foreach_core F G R ae buf hs hg v hv list j hj body rbv hrb ihb env jenv out
     hrel hb fuel _ _ _ _ rfl rfl rfl rfl e1 e2 h1 h2
   obtain ⟨text, ht, hb', hk'⟩ := hloop e3 h3
   have hk := k12.trans hk' (Nat.le_refl _)
@@ -3042,11 +3419,11 @@ theorem forc_none_ok (p : Nat) (v : Bytes) (list : Expr) (body : Block) (ihb : B
     subst ht
     simp [refCmd, hev, Spec.Eval.Out.bind]
   | cons x xs' =>
-    have ht' : Spec.Eval.loopSpec (refBlock F ae body) env v xs'.length (x :: xs') 0 = .val text := by simpa using ht
+    have ht' : Spec.Eval.loopSpec (refBlock F R ae body) env v xs'.length (x :: xs') 0 = .val text := by simpa using ht
     simp [refCmd, hev, Spec.Eval.Out.bind, ht']
 
-theorem forc_some_ok (p : Nat) (v : Bytes) (list : Expr) (body ie : Block) (ihb : BodyOk F ae buf body)
-    (ihe : BlockOk F ae buf ie) : CmdOk F ae buf (.forc p v list body (some ie)) := by
+theorem forc_some_ok (p : Nat) (v : Bytes) (list : Expr) (body ie : Block) (ihb : BodyOk F G R ae buf body)
+    (ihe : BlockOk F G R ae buf ie) : CmdOk F G R ae buf (.forc p v list body (some ie)) := by
   intro fuel sc r env jenv jenv' out h hs hg hrel hb hx
   unfold toCmd at h
   have h := (loopJoin_some h).resolve_right (by intro h'; have := (rangeJoin_some h').2.1; simp at this)
@@ -3059,7 +3436,7 @@ theorem forc_some_ok (p : Nat) (v : Bytes) (list : Expr) (body ie : Block) (ihb 
   obtain ⟨e3, h3, hx⟩ := sres_bind_ok hx
   simp only [SRes.ok.injEq] at hx
   subst hx
-  obtain ⟨xs, js, hev, hxs, _, hrel2, hb2, k12, _, hfn, hloop⟩ := foreach_core F ae buf hs hg v hv list j hj body rbv hrb ihb
+  obtain ⟨xs, js, hev, hxs, _, hrel2, hb2, k12, _, hfn, hloop⟩ := foreach_core F G R ae buf hs hg v hv list j hj body rbv hrb ihb
     env jenv out hrel hb fuel _ _ _ _ rfl rfl rfl rfl e1 e2 h1 h2
   have hlen := C04c.toJsList_length xs js hxs
   have hst : rbv.2.pop.stack = sc.stack := by
@@ -3090,11 +3467,11 @@ theorem forc_some_ok (p : Nat) (v : Bytes) (list : Expr) (body ie : Block) (ihb 
     cases xs with
     | nil => simp only [List.length_nil] at hlen; omega
     | cons x xs' =>
-      have ht' : Spec.Eval.loopSpec (refBlock F ae body) env v xs'.length (x :: xs') 0 = .val text := by simpa using ht
+      have ht' : Spec.Eval.loopSpec (refBlock F R ae body) env v xs'.length (x :: xs') 0 = .val text := by simpa using ht
       simp [refCmd, hev, Spec.Eval.Out.bind, ht']
   · have : decide ((0 : Int) < (js.length : Int)) = false := by simpa using hpos
     simp only [this, toBoolean, Bool.false_eq_true, if_false] at h3
-    have hrel2' : EnvRel rbv.2.pop env e2 := envRel_stack hrel2 hst
+    have hrel2' : EnvRel R.entry rbv.2.pop env e2 := envRel_stack hrel2 hst
     obtain ⟨text, ht, hb', hk'⟩ := ihe fuel _ re env e2 e3 out hre hs' (goodBuf_of_stack hg hst hn) hrel2' hb2 h3
     have hk := k12.trans (hk'.mono hn) (Nat.le_refl _)
     refine ⟨text, env, ?_, envRel_keep hrel hk hs.2 (Nat.le_refl _) hg.2 (c1.trans hst), hb', hk⟩
@@ -3104,8 +3481,8 @@ theorem forc_some_ok (p : Nat) (v : Bytes) (list : Expr) (body ie : Block) (ihb 
 
 /-! ### a content block: the body writes to a buffer of its own -/
 
-theorem letContent_ok (p : Nat) (name : Bytes) (body : Block) (ih : ∀ buf', BlockOk F ae buf' body) :
-    CmdOk F ae buf (.letContent p name body) := by
+theorem letContent_ok (p : Nat) (name : Bytes) (body : Block) (ih : ∀ buf', BlockOk F G R ae buf' body) :
+    CmdOk F G R ae buf (.letContent p name body) := by
   intro fuel sc r env jenv jenv' out h hs hg hrel hb hx
   unfold toCmd at h
   obtain ⟨hname, rbv, hrb, rfl⟩ := letJoin_some h
@@ -3124,7 +3501,7 @@ theorem letContent_ok (p : Nat) (name : Bytes) (body : Block) (ih : ∀ buf', Bl
   subst h1
   have k1 : Keeps buf sc.n jenv (setLocal jenv (sc.genname name).1 (.str [])) :=
     keeps_setNew buf sc.n jenv hname (Or.inl rfl) (Nat.lt_succ_self _) _
-  have hrel1 : EnvRel (sc.genname name).2 env (setLocal jenv (sc.genname name).1 (.str [])) :=
+  have hrel1 : EnvRel R.entry (sc.genname name).2 env (setLocal jenv (sc.genname name).1 (.str [])) :=
     envRel_keep hrel k1 hs.2 (Nat.le_refl _) hg.2 rfl
   obtain ⟨text, ht, hb', hk'⟩ := ih (sc.genname name).1 fuel _ rbv env _ jenv' [] hrb hs' hg' hrel1 (find_setLocal_eq _ _ _) hx
   simp only [List.nil_append] at hb'
@@ -3144,9 +3521,9 @@ theorem letContent_ok (p : Nat) (name : Bytes) (body : Block) (ih : ∀ buf', Bl
   -- the relation in the scope that binds `name` to the buffer
   have hst : sc.stack ≠ [] := hs.1
   have hloop : LoopRel (rbv.2.bind name (sc.genname name).1) (env.bind name (.str text)) jenv' := by
-    have h1 : LoopRel rbv.2 env jenv' := loopRel_keep hrel.2 hkeep hs.2 (Nat.le_refl _) hg.2 a1
+    have h1 : LoopRel rbv.2 env jenv' := loopRel_keep hrel.2.1 hkeep hs.2 (Nat.le_refl _) hg.2 a1
     exact loopRel_setTop h1 name _ hname _ (fun _ _ _ _ => rfl) rfl
-  refine ⟨?_, hloop⟩
+  refine ⟨?_, hloop, by rw [hkeep.1]; exact hrel.2.2⟩
   cases hstk : rbv.2.stack with
   | nil => rw [a1] at hstk; exact absurd hstk hst
   | cons f st =>
@@ -3184,39 +3561,258 @@ theorem letContent_ok (p : Nat) (name : Bytes) (body : Block) (ih : ∀ buf', Bl
         rw [hkeep.2.2 g (hg.2 f0 hf0 _ hm) (hs.2 f0 hf0 _ hm).2]
         exact hfind
 
+/-! ### call -/
+
+/-- from `a` to `b` only locals generated after the counter was `lo` changed -/
+def KeepsAll (lo : Nat) (a b : JEnv) : Prop :=
+  b.optData = a.optData ∧ b.ijData = a.ijData ∧ ∀ g, Old lo g → b.locals.find? (·.1 == g) = a.locals.find? (·.1 == g)
+
+omit ent in
+theorem KeepsAll.refl (lo : Nat) (a : JEnv) : KeepsAll lo a a := ⟨rfl, rfl, fun _ _ => rfl⟩
+
+omit ent in
+theorem KeepsAll.trans {lo lo' : Nat} {a b c : JEnv} (h1 : KeepsAll lo a b) (h2 : KeepsAll lo' b c) (hl : lo ≤ lo') :
+    KeepsAll lo a c :=
+  ⟨h2.1.trans h1.1, h2.2.1.trans h1.2.1, fun g hg => (h2.2.2 g (hg.mono hl)).trans (h1.2.2 g hg)⟩
+
+omit ent in
+theorem KeepsAll.keeps {lo : Nat} {a b : JEnv} (h : KeepsAll lo a b) (buf' : Bytes) : Keeps buf' lo a b :=
+  ⟨h.1, h.2.1, fun g _ hg => h.2.2 g hg⟩
+
+theorem envRel_keepAll {sc sc' : Scope} {env : SEnv} {jenv jenv' : JEnv} {lo : Nat} (hrel : EnvRel ent sc env jenv)
+    (hk : KeepsAll lo jenv jenv') (hb : Bounded sc) (hlo : sc.n ≤ lo) (hst : sc'.stack = sc.stack) :
+    EnvRel ent sc' env jenv' :=
+  envRel_keep hrel (hk.keeps (Scope.jsname b!"x" [] (sc.n + 1))) hb hlo
+    (fresh_new hb (by decide) (Or.inl rfl) (Nat.lt_succ_self _)) hst
+
+omit ent in
+theorem toJsKvs_append : ∀ (a b : List (Bytes × Val)) (ja jb : List (Bytes × JVal)), C04c.toJsKvs a = some ja →
+    C04c.toJsKvs b = some jb → C04c.toJsKvs (a ++ b) = some (ja ++ jb)
+  | [], b, ja, jb, ha, hb => by
+    simp only [C04c.toJsKvs, Option.some.injEq] at ha; subst ha; simpa using hb
+  | (k, v) :: r, b, ja, jb, ha, hb => by
+    simp only [C04c.toJsKvs] at ha
+    cases hv : toJsV v with
+    | none => simp [hv] at ha
+    | some jv =>
+      cases hr : C04c.toJsKvs r with
+      | none => simp [hv, hr] at ha
+      | some jr =>
+        simp only [hv, hr, Option.some.injEq] at ha; subst ha
+        simp [C04c.toJsKvs, hv, toJsKvs_append r b jr jb hr hb]
+
+/-- the callee oracle `G` agrees with the reference's `call`: when the generated function `name` returns `r` on the
+    JSON image of the data `ce.entry`, `name` is a template of the registry, it renders on that data, and `r` is
+    the text -/
+def CallRel : Prop :=
+  ∀ (name : Bytes) (ce : Spec.Eval.CallEnv) (jd : List (Bytes × JVal)) (r : JVal),
+    C04c.toJsKvs ce.entry = some jd → G name (.obj jd) = .val r →
+    ∃ callee out, Registry.lookup R.reg name = some callee ∧ R.call callee ce = .val out ∧ r = .str out
+
+/-- the params of a call: when the statements that fill the content params' buffers complete, only new locals
+    changed, and wherever the `key: value` list is then evaluated (in an environment that kept the buffers), the
+    reference yields the params whose JSON image it is -/
+def ParamsOk (ps : ParamList) : Prop :=
+  ∀ (fuel : Nat) (sc : Scope) (r : JsStmts × List (Bytes × JsExpr) × Scope) (env : SEnv) (jenv jenvF : JEnv),
+    toParams ae ps sc = some r → ScOk sc → EnvRel R.entry sc env jenv → execStmts F G fuel r.1 jenv = .ok jenvF →
+    KeepsAll sc.n jenv jenvF ∧
+    ∀ (jenv2 : JEnv) (acc extra : List (Bytes × JVal)), KeepsAll r.2.2.n jenvF jenv2 →
+      evalParams jenv2 r.2.1 acc = .inr extra →
+      ∃ bs jbs, refParams F R ae ps env = .val bs ∧ C04c.toJsKvs bs = some jbs ∧ extra = jbs ++ acc
+
+theorem params_nil_ok : ParamsOk F G R ae .nil := by
+  intro fuel sc r env jenv jenvF h hs hrel hx
+  simp only [toParams, Option.some.injEq] at h; subst h
+  simp only [execStmts, SRes.ok.injEq] at hx; subst hx
+  refine ⟨KeepsAll.refl _ _, ?_⟩
+  intro jenv2 acc extra _ hev
+  simp only [evalParams, Sum.inr.injEq] at hev
+  exact ⟨[], [], by simp [refParams], by simp [C04c.toJsKvs], by simp [hev]⟩
+
+theorem params_value_ok (p : Nat) (key : Bytes) (e : Expr) (rest : ParamList) (iht : ParamsOk F G R ae rest) :
+    ParamsOk F G R ae (.value p key e rest) := by
+  intro fuel sc r env jenv jenvF h hs hrel hx
+  unfold toParams at h
+  obtain ⟨j, rr, hj, hrr, hr⟩ := valueParamJoin_some h rfl
+  simp only [Option.some.injEq] at hr; subst hr
+  obtain ⟨kt, hpt⟩ := iht fuel sc rr env jenv jenvF hrr hs hrel hx
+  refine ⟨kt, ?_⟩
+  intro jenv2 acc extra hk2 hev
+  simp only [evalParams] at hev
+  obtain ⟨_, b2⟩ := toParams_scope ae rest sc rr hrr hs
+  cases hv : eval jenv2 j with
+  | error => rw [hv] at hev; cases hev
+  | unspec => rw [hv] at hev; cases hev
+  | val v =>
+    rw [hv] at hev
+    have hrel2 : EnvRel R.entry sc env jenv2 := envRel_keepAll hrel (kt.trans hk2 b2) hs.2 (Nat.le_refl _) rfl
+    obtain ⟨vv, hvv, hvj⟩ := C04c.gen_correct_refs_partial sc env jenv2 hrel2 e j v hj hv
+    obtain ⟨bs, jbs, hr, hjb, he⟩ := hpt jenv2 ((key, v) :: acc) extra hk2 hev
+    refine ⟨bs ++ [(key, vv)], jbs ++ [(key, v)], by simp [refParams, hvv, hr, Spec.Eval.Out.bind],
+      toJsKvs_append _ _ _ _ hjb (by simp [C04c.toJsKvs, hvj]), by simp [he]⟩
+
+/-- the statements of one content param, run: the body's text is in the param's buffer, nothing older changed, and
+    the relation holds in the scope after it -/
+theorem content_param_run (body : Block) (ih : ∀ buf', BlockOk F G R ae buf' body) {fuel : Nat} {sc : Scope}
+    {rb : JsStmts × Scope} {env : SEnv} {jenv e1 : JEnv}
+    (hrb : toBlock ae (sc.genname b!"param").1 body (sc.genname b!"param").2 = some rb) (hs : ScOk sc)
+    (hrel : EnvRel R.entry sc env jenv)
+    (h1 : execStmts F G fuel (.cons (.varEmpty (sc.genname b!"param").1) rb.1) jenv = .ok e1) :
+    ∃ text, refBlock F R ae body env = .val text ∧ BufIs (sc.genname b!"param").1 e1 text ∧ KeepsAll sc.n jenv e1 ∧
+      EnvRel R.entry rb.2 env e1 ∧ ScOk rb.2 ∧ sc.n + 1 ≤ rb.2.n ∧ rb.2.stack = sc.stack := by
+  have hname : (b!"param" : Bytes).contains 36 = false := by decide
+  have hs' : ScOk (sc.genname b!"param").2 := scOk_of_stack hs rfl (Nat.le_succ _)
+  obtain ⟨a1, a2⟩ := toBlock_scope ae body _ _ rb hrb hs'
+  have a2' : sc.n + 1 ≤ rb.2.n := a2
+  have hg' : GoodBuf (sc.genname b!"param").2 (sc.genname b!"param").1 :=
+    ⟨old_jsname hname (Or.inl rfl) (Nat.le_refl _), fun f hf kv hkv => (hs.2 f hf kv hkv).2 b!"param" [] (sc.n + 1) hname
+      (Or.inl rfl) (Nat.lt_succ_self _)⟩
+  have hs1 : ScOk rb.2 := scOk_of_stack hs' a1 a2
+  simp only [execStmts] at h1
+  obtain ⟨e0, h0, h1⟩ := sres_bind_ok h1
+  simp only [execStmt, SRes.ok.injEq] at h0
+  subst h0
+  have k1 : Keeps (sc.genname b!"param").1 sc.n jenv (setLocal jenv (sc.genname b!"param").1 (.str [])) :=
+    keeps_setNew _ sc.n jenv hname (Or.inl rfl) (Nat.lt_succ_self _) _
+  have hrel1 : EnvRel R.entry (sc.genname b!"param").2 env (setLocal jenv (sc.genname b!"param").1 (.str [])) :=
+    envRel_keep hrel k1 hs.2 (Nat.le_refl _) hg'.2 rfl
+  obtain ⟨text, ht, hb', hk'⟩ := ih (sc.genname b!"param").1 fuel _ rb env _ e1 [] hrb hs' hg' hrel1 (find_setLocal_eq _ _ _) h1
+  simp only [List.nil_append] at hb'
+  have hn1 : (sc.genname b!"param").2.n = sc.n + 1 := rfl
+  rw [hn1] at hk'
+  have hka : KeepsAll sc.n jenv e1 := by
+    refine ⟨hk'.1.trans k1.1, hk'.2.1.trans k1.2.1, ?_⟩
+    intro g hgo
+    have hgn : g ≠ (sc.genname b!"param").1 := fun e => hgo b!"param" [] (sc.n + 1) hname (Or.inl rfl) (Nat.lt_succ_self _) e
+    rw [hk'.2.2 g hgn (hgo.mono (Nat.le_succ _)), find_setLocal_ne jenv _ g _ hgn]
+  exact ⟨text, ht, hb', hka, envRel_keepAll hrel hka hs.2 (Nat.le_refl _) a1, hs1, a2', a1⟩
+
+/-- the param's buffer still holds the text wherever the `key: value` list is evaluated -/
+theorem content_param_find {sc : Scope} {rb : JsStmts × Scope} {rr : JsStmts × List (Bytes × JsExpr) × Scope}
+    {e1 jenvF jenv2 : JEnv} {text : Bytes} (a2' : sc.n + 1 ≤ rb.2.n) (b2 : rb.2.n ≤ rr.2.2.n)
+    (hb' : BufIs (sc.genname b!"param").1 e1 text) (kt : KeepsAll rb.2.n e1 jenvF) (hk2 : KeepsAll rr.2.2.n jenvF jenv2) :
+    eval jenv2 (.local (sc.genname b!"param").1) = .val (.str text) := by
+  have hold : Old rb.2.n (sc.genname b!"param").1 := old_jsname (by decide) (Or.inl rfl) a2'
+  apply eval_local
+  rw [hk2.2.2 _ (hold.mono b2), kt.2.2 _ hold]; exact hb'
+
+theorem params_content_ok (p : Nat) (key : Bytes) (body : Block) (rest : ParamList)
+    (ih : ∀ buf', BlockOk F G R ae buf' body) (iht : ParamsOk F G R ae rest) :
+    ParamsOk F G R ae (.content p key body rest) := by
+  intro fuel sc r env jenv jenvF h hs hrel hx
+  unfold toParams at h
+  obtain ⟨rb, rr, hrb, hrr, rfl⟩ := contentParamJoin_some h
+  rw [execStmts_append] at hx
+  obtain ⟨e1, h1, hx2⟩ := sres_bind_ok hx
+  obtain ⟨text, ht, hb', hka, hrelt, hs1, a2', _⟩ := content_param_run F G R ae body ih hrb hs hrel h1
+  obtain ⟨_, b2⟩ := toParams_scope ae rest rb.2 rr hrr hs1
+  obtain ⟨kt, hpt⟩ := iht fuel rb.2 rr env e1 jenvF hrr hs1 hrelt hx2
+  refine ⟨hka.trans kt (Nat.le_trans (Nat.le_succ _) a2'), ?_⟩
+  intro jenv2 acc extra hk2 hev
+  simp only [evalParams] at hev
+  rw [content_param_find a2' b2 hb' kt hk2] at hev
+  obtain ⟨bs, jbs, hr, hjb, he⟩ := hpt jenv2 ((key, .str text) :: acc) extra hk2 hev
+  refine ⟨bs ++ [(key, .str text)], jbs ++ [(key, .str text)], by simp [refParams, ht, hr, Spec.Eval.Out.bind],
+    toJsKvs_append _ _ _ _ hjb (by simp [C04c.toJsKvs, C04c.toJsV]), by simp [he]⟩
+
+/-- the first argument of the callee is the JSON image of the data the reference passes on -/
+theorem base_ok {sc : Scope} {env : SEnv} {jenv : JEnv} (hrel : EnvRel R.entry sc env jenv) {allData : Bool}
+    {data : Option Expr} {base : DataBase} (hbase : callBase sc allData data = some base) {bkvs : List (Bytes × JVal)}
+    (hbv : evalBase jenv base = .val (.obj bkvs)) :
+    ∃ bd, refBase R allData data env = .val bd ∧ C04c.toJsKvs bd = some bkvs := by
+  cases allData <;> cases data <;> simp only [callBase, Option.some.injEq, Option.map_eq_some_iff, reduceCtorEq] at hbase
+  · subst hbase
+    simp only [evalBase, JOut.val.injEq, JVal.obj.injEq] at hbv; subst hbv
+    exact ⟨[], by simp [refBase], by simp [C04c.toJsKvs]⟩
+  · obtain ⟨j, hj, rfl⟩ := hbase
+    simp only [evalBase] at hbv
+    obtain ⟨v, hv, hvj⟩ := C04c.gen_correct_refs_partial sc env jenv hrel _ j _ hj hbv
+    obtain ⟨kvs, rfl, hk⟩ := C04c.toJsV_obj hvj
+    exact ⟨kvs, by simp [refBase, hv, Spec.Eval.Out.bind], hk⟩
+  · subst hbase
+    simp only [evalBase, JOut.val.injEq, JVal.obj.injEq] at hbv; subst hbv
+    exact ⟨R.entry, by simp [refBase], hrel.2.2⟩
+
+theorem call_ok (hG : CallRel G R) (p : Nat) (name : Bytes) (allData : Bool) (data : Option Expr) (params : ParamList)
+    (ihp : ParamsOk F G R ae params) : CmdOk F G R ae buf (.call p name allData data params) := by
+  intro fuel sc r env jenv jenv' out h hs hg hrel hb hx
+  unfold toCmd at h
+  obtain ⟨base, rp, hbase, hrp, rfl⟩ := callJoin_some h
+  obtain ⟨a1, a2⟩ := toParams_scope ae params sc rp hrp hs
+  rw [execStmts_append] at hx
+  obtain ⟨jenvF, h1, hx⟩ := sres_bind_ok hx
+  rw [execStmts_one] at hx
+  simp only [execStmt] at hx
+  obtain ⟨kp, hpp⟩ := ihp fuel sc rp env jenv jenvF hrp hs hrel h1
+  have hrelF : EnvRel R.entry sc env jenvF := envRel_keepAll hrel kp hs.2 (Nat.le_refl _) rfl
+  have hbF : BufIs buf jenvF out := by unfold BufIs; rw [kp.2.2 buf hg.1]; exact hb
+  obtain ⟨bv, hbv, hx⟩ := withVal_ok hx
+  cases bv with
+  | obj bkvs =>
+    cases hep : evalParams jenvF rp.2.1 [] with
+    | inl o => rw [hep] at hx; cases o <;> cases hx
+    | inr extra =>
+      rw [hep] at hx
+      simp only at hx
+      obtain ⟨rv, hrv, hx⟩ := withVal_ok hx
+      obtain ⟨bs, jbs, hr, hjb, he⟩ := hpp jenvF [] extra (KeepsAll.refl _ _) hep
+      simp only [List.append_nil] at he; subst he
+      obtain ⟨bd, hbd, hbj⟩ := base_ok R hrelF hbase hbv
+      obtain ⟨callee, outc, hlk, hc, rfl⟩ := hG name ⟨bs ++ bd, env.ij, env.globals⟩ (extra ++ bkvs) rv
+        (toJsKvs_append _ _ _ _ hjb hbj) hrv
+      obtain ⟨s, hs', rfl⟩ := appendTo_ok hbF hx
+      simp only [toStr?, Option.some.injEq] at hs'; subst hs'
+      have hkeep : Keeps buf sc.n jenv (setLocal jenvF buf (.str (out ++ outc))) :=
+        (kp.keeps buf).trans (keeps_setBuf buf sc.n jenvF _) (Nat.le_refl _)
+      refine ⟨outc, env, ?_, envRel_keep hrel hkeep hs.2 (Nat.le_refl _) hg.2 a1, bufIs_setBuf _ _ _, hkeep⟩
+      simp only [refCmd, hlk, hbd, hr, hc, Spec.Eval.Out.bind]
+  | undefined => cases hx
+  | null => cases hx
+  | bool _ => cases hx
+  | num _ => cases hx
+  | str _ => cases hx
+  | arr _ => cases hx
+
+variable (hG : CallRel G R)
+include hG
+
 mutual
-  theorem cmd_ok : ∀ (c : Cmd) (buf : Bytes), CmdOk F ae buf c
-    | .rawText p t, buf => rawText_ok F ae buf p t
-    | .print p arg dirs, buf => print_ok F ae buf p arg dirs
-    | .letValue p x e, buf => letValue_ok F ae buf p x e
-    | .ifc p conds, buf => ifc_ok F ae buf p conds (conds_ok conds buf)
+  theorem cmd_ok : ∀ (c : Cmd) (buf : Bytes), CmdOk F G R ae buf c
+    | .rawText p t, buf => rawText_ok F G R ae buf p t
+    | .print p arg dirs, buf => print_ok F G R ae buf p arg dirs
+    | .letValue p x e, buf => letValue_ok F G R ae buf p x e
+    | .ifc p conds, buf => ifc_ok F G R ae buf p conds (conds_ok conds buf)
     | .msg .., _ => fun _ _ _ _ _ _ _ h => by simp [toCmd] at h
     | .css .., _ => fun _ _ _ _ _ _ _ h => by simp [toCmd] at h
     | .debugger .., _ => fun _ _ _ _ _ _ _ h => by simp [toCmd] at h
     | .log .., _ => fun _ _ _ _ _ _ _ h => by simp [toCmd] at h
-    | .forc p v list body none, buf => forc_none_ok F ae buf p v list body (body_ok' body buf)
-    | .forc p v list body (some ie), buf => forc_some_ok F ae buf p v list body ie (body_ok' body buf) (block_ok' ie buf)
-    | .switch p value cases, buf => switch_ok F ae buf p value cases (cases_ok cases buf)
-    | .call .., _ => fun _ _ _ _ _ _ _ h => by simp [toCmd] at h
-    | .letContent p name body, buf => letContent_ok F ae buf p name body (fun b' => block_ok' body b')
+    | .forc p v list body none, buf => forc_none_ok F G R ae buf p v list body (body_ok' body buf)
+    | .forc p v list body (some ie), buf => forc_some_ok F G R ae buf p v list body ie (body_ok' body buf) (block_ok' ie buf)
+    | .switch p value cases, buf => switch_ok F G R ae buf p value cases (cases_ok cases buf)
+    | .call p name allData data params, buf => call_ok F G R ae buf hG p name allData data params (params_ok params)
+    | .letContent p name body, buf => letContent_ok F G R ae buf p name body (fun b' => block_ok' body b')
     | .headerParam .., _ => fun _ _ _ _ _ _ _ h => by simp [toCmd] at h
     | .namespace .., _ => fun _ _ _ _ _ _ _ h => by simp [toCmd] at h
     | .template .., _ => fun _ _ _ _ _ _ _ h => by simp [toCmd] at h
     | .soyDoc .., _ => fun _ _ _ _ _ _ _ h => by simp [toCmd] at h
-  theorem body_ok' : ∀ (b : Block) (buf : Bytes), BodyOk F ae buf b
-    | .mk p cmds, buf => body_ok F ae buf p cmds (cmds_ok cmds buf)
-  theorem block_ok' : ∀ (b : Block) (buf : Bytes), BlockOk F ae buf b
-    | .mk p cmds, buf => block_ok F ae buf p cmds (cmds_ok cmds buf)
-  theorem cmds_ok : ∀ (cs : CmdList) (buf : Bytes), CmdsOk F ae buf cs
-    | .nil, buf => cmds_nil_ok F ae buf
-    | .cons c rest, buf => cmds_cons_ok F ae buf c rest (cmd_ok c buf) (cmds_ok rest buf)
-  theorem cases_ok : ∀ (cs : CaseList) (buf : Bytes), CasesOk F ae buf cs
-    | .nil, buf => cases_nil_ok F ae buf
-    | .cons p values body rest, buf => cases_cons_ok F ae buf p values body rest (block_ok' body buf) (cases_ok rest buf)
-  theorem conds_ok : ∀ (cs : CondList) (buf : Bytes), CondsOk F ae buf cs
-    | .nil, buf => conds_nil_ok F ae buf
-    | .cons p (some c) body rest, buf => conds_some_ok F ae buf p c body rest (block_ok' body buf) (conds_ok rest buf)
-    | .cons p none body rest, buf => conds_else_ok F ae buf p body rest (block_ok' body buf)
+  theorem params_ok : ∀ (ps : ParamList), ParamsOk F G R ae ps
+    | .nil => params_nil_ok F G R ae
+    | .value p key e rest => params_value_ok F G R ae p key e rest (params_ok rest)
+    | .content p key body rest => params_content_ok F G R ae p key body rest (fun b' => block_ok' body b') (params_ok rest)
+  theorem body_ok' : ∀ (b : Block) (buf : Bytes), BodyOk F G R ae buf b
+    | .mk p cmds, buf => body_ok F G R ae buf p cmds (cmds_ok cmds buf)
+  theorem block_ok' : ∀ (b : Block) (buf : Bytes), BlockOk F G R ae buf b
+    | .mk p cmds, buf => block_ok F G R ae buf p cmds (cmds_ok cmds buf)
+  theorem cmds_ok : ∀ (cs : CmdList) (buf : Bytes), CmdsOk F G R ae buf cs
+    | .nil, buf => cmds_nil_ok F G R ae buf
+    | .cons c rest, buf => cmds_cons_ok F G R ae buf c rest (cmd_ok c buf) (cmds_ok rest buf)
+  theorem cases_ok : ∀ (cs : CaseList) (buf : Bytes), CasesOk F G R ae buf cs
+    | .nil, buf => cases_nil_ok F G R ae buf
+    | .cons p values body rest, buf => cases_cons_ok F G R ae buf p values body rest (block_ok' body buf) (cases_ok rest buf)
+  theorem conds_ok : ∀ (cs : CondList) (buf : Bytes), CondsOk F G R ae buf cs
+    | .nil, buf => conds_nil_ok F G R ae buf
+    | .cons p (some c) body rest, buf => conds_some_ok F G R ae buf p c body rest (block_ok' body buf) (conds_ok rest buf)
+    | .cons p none body rest, buf => conds_else_ok F G R ae buf p body rest (block_ok' body buf)
 end
 
 end
@@ -3224,44 +3820,47 @@ end
 /-! ## the theorem -/
 
 section
-variable (F : Bytes → List Expr → JVal → JOut) (ae : Autoescape) (buf : Bytes)
+variable (F : Bytes → List Expr → JVal → JOut) (G : Bytes → JVal → JOut) (R : RefCtx) (ae : Autoescape) (buf : Bytes)
 
 /-- PARTIAL (C04, command level).  For a list of commands of the fragment — raw text, `{print}` with
     directives, `{let $x: e /}`, `{if}/{elseif}/{else}`, `{foreach}` / `{ifempty}`, `{for … in range(…)}`, `{switch}`,
-    `{let $x}…{/let}`, over the expressions of Props/C04c — met in the
+    `{let $x}…{/let}`, `{call}` with value / content params and `data="all"` / `data="$e"` (callee oracle `G`,
+    reference context `R`, hypothesis `CallRel G R`), over the expressions of Props/C04c — met in the
     generator scope `sc` with output variable `buf`:
     (a) the generator model writes exactly the statements `st` of the translation;
     (b) whenever these statements run to completion (Spec/JsStmt; every interpretation `F` of the
         directive functions) from a JavaScript environment related to the Soy environment `env`, in
         which `buf` holds `out`, the specification renders the commands in `env` to a text, and `buf`
         then holds `out` followed by exactly this text. -/
-theorem gen_correct_cmds_partial (sk : List Bytes → List Bytes) (o : Options)
+theorem gen_correct_cmds_partial (hG : CallRel G R) (sk : List Bytes → List Bytes) (o : Options)
     (cmds : CmdList) (sc : Scope) (r : JsStmts × Scope) (h : toCmds ae buf cmds sc = some r) :
-    (∀ ind, Runs (At ind buf ae sc) (At ind buf ae r.2) (walkCmds sk o cmds) (renderStmts ind r.1)) ∧
-    (∀ (fuel : Nat) (env : SEnv) (jenv jenv' : JEnv) (out : Bytes), ScOk sc → GoodBuf sc buf → EnvRel sc env jenv → BufIs buf jenv out →
-      execStmts F fuel r.1 jenv = .ok jenv' →
-      ∃ text, refCmds F ae cmds env = .val text ∧ BufIs buf jenv' (out ++ text)) := by
+    (∀ ind, Runs (At ind buf ae sc) (At ind buf ae r.2) (walkCmds sk o cmds) (renderStmts (isEs6 o) ind r.1)) ∧
+    (∀ (fuel : Nat) (env : SEnv) (jenv jenv' : JEnv) (out : Bytes), ScOk sc → GoodBuf sc buf → EnvRel R.entry sc env jenv → BufIs buf jenv out →
+      execStmts F G fuel r.1 jenv = .ok jenv' →
+      ∃ text, refCmds F R ae cmds env = .val text ∧ BufIs buf jenv' (out ++ text)) := by
   refine ⟨walkCmds_renders sk o ae cmds buf sc r h, ?_⟩
   intro fuel env jenv jenv' out hs hg hrel hb hx
-  obtain ⟨text, ht, hb', _⟩ := cmds_ok F ae cmds buf fuel sc r env jenv jenv' out h hs hg hrel hb hx
+  obtain ⟨text, ht, hb', _⟩ := cmds_ok F G R ae hG cmds buf fuel sc r env jenv jenv' out h hs hg hrel hb hx
   exact ⟨text, ht, hb'⟩
 
 /-- the body of a template: entered with `opt_data` the JSON image of the data, after
     `var output = '';`, in a fresh frame -/
-theorem gen_correct_body_partial (body : CmdList) (n : Nat) (r : JsStmts × Scope)
+theorem gen_correct_body_partial (hG : CallRel G R) (body : CmdList) (n : Nat) (r : JsStmts × Scope)
     (h : toCmds ae b!"output" body ⟨[[]], n⟩ = some r) (env : SEnv) (optData : List (Bytes × JVal))
-    (ij : Option (List (Bytes × JVal))) (hdata : C04c.toJsKvs env.vars = some optData) (jenv' : JEnv) (fuel : Nat)
-    (hx : execStmts F fuel r.1 ⟨optData, ij, [(b!"output", .str [])]⟩ = .ok jenv') :
-    ∃ text, refCmds F ae body env = .val text ∧ BufIs b!"output" jenv' text := by
+    (ij : Option (List (Bytes × JVal))) (hent : R.entry = env.vars) (hdata : C04c.toJsKvs env.vars = some optData)
+    (jenv' : JEnv) (fuel : Nat)
+    (hx : execStmts F G fuel r.1 ⟨optData, ij, [(b!"output", .str [])]⟩ = .ok jenv') :
+    ∃ text, refCmds F R ae body env = .val text ∧ BufIs b!"output" jenv' text := by
   have hs : ScOk ⟨[[]], n⟩ := by
     refine ⟨by simp, ?_⟩
     intro f hf kv hkv
     simp only [List.mem_singleton] at hf
     subst hf
     cases hkv
-  have hrel : EnvRel ⟨[[]], n⟩ env ⟨optData, ij, [(b!"output", .str [])]⟩ :=
-    C04c.envRel_params _ env _ (fun k => by simp [Scope.lookup, Scope.lookupIn, frameGet?]) hdata
-  obtain ⟨text, ht, hb', _⟩ := cmds_ok F ae body b!"output" fuel _ r env _ jenv' [] h hs
+  have hrel : EnvRel R.entry ⟨[[]], n⟩ env ⟨optData, ij, [(b!"output", .str [])]⟩ := by
+    rw [hent]
+    exact C04c.envRel_params _ env _ (fun k => by simp [Scope.lookup, Scope.lookupIn, frameGet?]) hdata
+  obtain ⟨text, ht, hb', _⟩ := cmds_ok F G R ae hG body b!"output" fuel _ r env _ jenv' [] h hs
     (goodBuf_plain n _ (by decide)) hrel (by simp [BufIs]) hx
   exact ⟨text, ht, by simpa using hb'⟩
 
@@ -3276,6 +3875,7 @@ mutual
     | .ifc _ conds => plainConds conds
     | .switch _ _ cases => plainCases cases
     | .letContent _ _ body => plainBlock body
+    | .call _ _ _ _ params => plainParams params
     | .forc _ _ _ body ifEmpty =>
       plainBlock body && (match ifEmpty with
         | none => true
@@ -3286,6 +3886,10 @@ mutual
   def plainCmds : CmdList → Bool
     | .nil => true
     | .cons c r => plainCmd c && plainCmds r
+  def plainParams : ParamList → Bool
+    | .nil => true
+    | .value _ _ _ rest => plainParams rest
+    | .content _ _ body rest => plainBlock body && plainParams rest
   def plainCases : CaseList → Bool
     | .nil => true
     -- a {default} (a value-less case) is the LAST case — as `toCases` (`caseJoin`) requires; there the
@@ -3324,7 +3928,7 @@ def EscapeHtmlIs (F : Bytes → List Expr → JVal → JOut) : Prop :=
     | none => .unspec
 
 section
-variable (F : Bytes → List Expr → JVal → JOut) (ae : Autoescape) (hesc : EscapeHtmlIs F)
+variable (F : Bytes → List Expr → JVal → JOut) (G : Bytes → JVal → JOut) (ae : Autoescape) (hesc : EscapeHtmlIs F)
 variable (reg : Registry.Reg) (hasBundle : Bool) (entry : Spec.Eval.Binds)
 variable (call : Registry.Tmpl → Spec.Eval.CallEnv → Out Bytes)
 include hesc
@@ -3358,7 +3962,7 @@ theorem refPrint_nil (v : Val) (s : Bytes) (h : refPrint F ae [] v = .val s) :
 
 mutual
   theorem ref_le_spec_cmd : ∀ (c : Cmd) (env : SEnv) (r : Bytes × SEnv), plainCmd c = true →
-      refCmd F ae c env = .val r → Spec.Eval.renderCmd reg hasBundle (ae != .off) entry call none c env = .val r
+      refCmd F ⟨reg, entry, call⟩ ae c env = .val r → Spec.Eval.renderCmd reg hasBundle (ae != .off) entry call none c env = .val r
     | .rawText p t, env, r, _, h => by
       rw [Spec.Eval.renderCmd]
       simpa [refCmd] using h
@@ -3435,7 +4039,62 @@ mutual
       have e : ∀ {α β : Type} (a : α) (f : α → Out β), (Out.val a).bind f = f a := fun _ _ => rfl
       rw [hsv, e, this, e]
       exact h
-    | .call .., _, _, _, h => by simp [refCmd] at h
+    | .call p name true none params, env, r, hp, h => by
+      rw [Spec.Eval.renderCmd]
+      simp only [refCmd, refBase] at h ⊢
+      cases hl : Registry.lookup reg name with
+      | none => simp [hl] at h
+      | some callee =>
+        simp only [hl, ↓reduceIte, Bool.false_eq_true] at h ⊢
+        obtain ⟨b, hb, h⟩ := out_bind_val h
+        obtain ⟨ps, hps, h⟩ := out_bind_val h
+        rw [hb]
+        simp only [Spec.Eval.Out.bind]
+        rw [ref_le_spec_params params env ps (by simpa [plainCmd] using hp) hps]
+        exact h
+    | .call p name true (some d) params, env, r, hp, h => by
+      rw [Spec.Eval.renderCmd]
+      simp only [refCmd, refBase] at h ⊢
+      cases hl : Registry.lookup reg name with
+      | none => simp [hl] at h
+      | some callee =>
+        simp only [hl, ↓reduceIte, Bool.false_eq_true] at h ⊢
+        obtain ⟨b, hb, h⟩ := out_bind_val h
+        obtain ⟨ps, hps, h⟩ := out_bind_val h
+        rw [hb]
+        simp only [Spec.Eval.Out.bind]
+        rw [ref_le_spec_params params env ps (by simpa [plainCmd] using hp) hps]
+        exact h
+    | .call p name false none params, env, r, hp, h => by
+      rw [Spec.Eval.renderCmd]
+      simp only [refCmd, refBase] at h ⊢
+      cases hl : Registry.lookup reg name with
+      | none => simp [hl] at h
+      | some callee =>
+        simp only [hl, ↓reduceIte, Bool.false_eq_true] at h ⊢
+        obtain ⟨b, hb, h⟩ := out_bind_val h
+        obtain ⟨ps, hps, h⟩ := out_bind_val h
+        rw [hb]
+        simp only [Spec.Eval.Out.bind]
+        rw [ref_le_spec_params params env ps (by simpa [plainCmd] using hp) hps]
+        exact h
+    | .call p name false (some d) params, env, r, hp, h => by
+      rw [Spec.Eval.renderCmd]
+      simp only [refCmd, refBase] at h ⊢
+      cases hl : Registry.lookup reg name with
+      | none => simp [hl] at h
+      | some callee =>
+        simp only [hl, ↓reduceIte, Bool.false_eq_true] at h ⊢
+        obtain ⟨b, hb, h⟩ := out_bind_val h
+        obtain ⟨ps, hps, h⟩ := out_bind_val h
+        obtain ⟨v, hv, hb⟩ := out_bind_val hb
+        rw [hv]
+        simp only [Spec.Eval.Out.bind]
+        cases v <;> simp only [Out.val.injEq, reduceCtorEq] at hb
+        subst hb
+        simp only [Spec.Eval.Out.bind]
+        rw [ref_le_spec_params params env ps (by simpa [plainCmd] using hp) hps]
+        exact h
     | .letContent p name body, env, r, hp, h => by
       rw [Spec.Eval.renderCmd]
       simp only [refCmd] at h
@@ -3446,13 +4105,38 @@ mutual
     | .namespace .., _, _, _, h => by simp [refCmd] at h
     | .template .., _, _, _, h => by simp [refCmd] at h
     | .soyDoc .., _, _, _, h => by simp [refCmd] at h
+  theorem ref_le_spec_params : ∀ (ps : ParamList) (env : SEnv) (out : Spec.Eval.Binds), plainParams ps = true →
+      refParams F ⟨reg, entry, call⟩ ae ps env = .val out →
+      Spec.Eval.renderParams reg hasBundle (ae != .off) entry call none ps env = .val out
+    | .nil, env, out, _, h => by
+      rw [Spec.Eval.renderParams]
+      simpa [refParams] using h
+    | .value p key e rest, env, out, hp, h => by
+      rw [Spec.Eval.renderParams]
+      simp only [refParams] at h ⊢
+      obtain ⟨v, hv, h⟩ := out_bind_val h
+      obtain ⟨r, hr, h⟩ := out_bind_val h
+      rw [hv]
+      simp only [Spec.Eval.Out.bind]
+      rw [ref_le_spec_params rest env r (by simpa [plainParams] using hp) hr]
+      exact h
+    | .content p key body rest, env, out, hp, h => by
+      rw [Spec.Eval.renderParams]
+      simp only [plainParams, Bool.and_eq_true] at hp
+      simp only [refParams] at h ⊢
+      obtain ⟨o1, ho1, h⟩ := out_bind_val h
+      obtain ⟨r, hr, h⟩ := out_bind_val h
+      rw [ref_le_spec_block body env o1 hp.1 ho1]
+      simp only [Spec.Eval.Out.bind]
+      rw [ref_le_spec_params rest env r hp.2 hr]
+      exact h
   theorem ref_le_spec_block : ∀ (b : Block) (env : SEnv) (out : Bytes), plainBlock b = true →
-      refBlock F ae b env = .val out → Spec.Eval.renderBlock reg hasBundle (ae != .off) entry call none b env = .val out
+      refBlock F ⟨reg, entry, call⟩ ae b env = .val out → Spec.Eval.renderBlock reg hasBundle (ae != .off) entry call none b env = .val out
     | .mk p cmds, env, out, hp, h => by
       rw [Spec.Eval.renderBlock]
       exact ref_le_spec_cmds cmds env out (by simpa [plainBlock] using hp) (by simpa [refBlock] using h)
   theorem ref_le_spec_cmds : ∀ (cs : CmdList) (env : SEnv) (out : Bytes), plainCmds cs = true →
-      refCmds F ae cs env = .val out → Spec.Eval.renderCmds reg hasBundle (ae != .off) entry call none cs env = .val out
+      refCmds F ⟨reg, entry, call⟩ ae cs env = .val out → Spec.Eval.renderCmds reg hasBundle (ae != .off) entry call none cs env = .val out
     | .nil, env, out, _, h => by
       rw [Spec.Eval.renderCmds]
       simpa [refCmds] using h
@@ -3467,7 +4151,7 @@ mutual
       rw [ref_le_spec_cmds rest r1.2 more hp.2 h2]
       exact h
   theorem ref_le_spec_cases : ∀ (cs : CaseList) (sv : Val) (env : SEnv) (out : Bytes), plainCases cs = true →
-      refCases F ae cs sv env = .val out → Spec.Eval.renderCases reg hasBundle (ae != .off) entry call none cs sv env = .val out
+      refCases F ⟨reg, entry, call⟩ ae cs sv env = .val out → Spec.Eval.renderCases reg hasBundle (ae != .off) entry call none cs sv env = .val out
     | .nil, sv, env, out, _, h => by
       rw [Spec.Eval.renderCases, Spec.Eval.renderMatch, Spec.Eval.renderDefault]
       simpa [refCases, Spec.Eval.Out.bind, Spec.Eval.orDefault] using h
@@ -3507,7 +4191,7 @@ mutual
           rw [Spec.Eval.renderCases] at this
           exact this
   theorem ref_le_spec_conds : ∀ (cs : CondList) (env : SEnv) (out : Bytes), plainConds cs = true →
-      refConds F ae cs env = .val out → Spec.Eval.renderConds reg hasBundle (ae != .off) entry call none cs env = .val out
+      refConds F ⟨reg, entry, call⟩ ae cs env = .val out → Spec.Eval.renderConds reg hasBundle (ae != .off) entry call none cs env = .val out
     | .nil, env, out, _, h => by
       rw [Spec.Eval.renderConds]
       simpa [refConds] using h
@@ -3533,18 +4217,19 @@ end
 end
 
 section
-variable (F : Bytes → List Expr → JVal → JOut) (ae : Autoescape)
+variable (F : Bytes → List Expr → JVal → JOut) (G : Bytes → JVal → JOut) (R : RefCtx) (ae : Autoescape)
 
 /-- against Spec/Eval.renderCmds itself: directive-free prints, soy.$$escapeHtml read as htmlEscape -/
 theorem gen_correct_cmds_spec (hesc : EscapeHtmlIs F) (buf : Bytes)
+    (reg : Registry.Reg) (hasBundle : Bool) (entry : Spec.Eval.Binds)
+    (call : Registry.Tmpl → Spec.Eval.CallEnv → Out Bytes) (hG : CallRel G ⟨reg, entry, call⟩)
     (cmds : CmdList) (hplain : plainCmds cmds = true) (sc : Scope) (r : JsStmts × Scope)
     (h : toCmds ae buf cmds sc = some r) (env : SEnv) (jenv jenv' : JEnv) (out : Bytes) (hs : ScOk sc)
-    (hg : GoodBuf sc buf) (hrel : EnvRel sc env jenv) (hb : BufIs buf jenv out) (fuel : Nat) (hx : execStmts F fuel r.1 jenv = .ok jenv')
-    (reg : Registry.Reg) (hasBundle : Bool) (entry : Spec.Eval.Binds)
-    (call : Registry.Tmpl → Spec.Eval.CallEnv → Out Bytes) :
+    (hg : GoodBuf sc buf) (hrel : EnvRel entry sc env jenv) (hb : BufIs buf jenv out) (fuel : Nat)
+    (hx : execStmts F G fuel r.1 jenv = .ok jenv') :
     ∃ text, Spec.Eval.renderCmds reg hasBundle (ae != .off) entry call none cmds env = .val text ∧
       BufIs buf jenv' (out ++ text) := by
-  obtain ⟨text, ht, hb', _⟩ := cmds_ok F ae cmds buf fuel sc r env jenv jenv' out h hs hg hrel hb hx
+  obtain ⟨text, ht, hb', _⟩ := cmds_ok F G ⟨reg, entry, call⟩ ae hG cmds buf fuel sc r env jenv jenv' out h hs hg hrel hb hx
   exact ⟨text, ref_le_spec_cmds F ae hesc reg hasBundle entry call cmds env text hplain ht, hb'⟩
 
 end
@@ -3567,6 +4252,14 @@ def sampleF (name : Bytes) (_ : List Expr) (jv : JVal) : JOut :=
   | some s => .val (.str (if name == escapeHtmlName then htmlEscape s else name ++ b!"!" ++ s))
   | none => .unspec
 
+/-- no other template to call -/
+def noCall (_ : Bytes) (_ : JVal) : JOut := .unspec
+/-- a reference context without templates, for the entry data `e` -/
+def noRefOn (e : Spec.Eval.Binds) : RefCtx := ⟨[], e, fun _ _ => .unspec⟩
+def noRef : RefCtx := noRefOn []
+
+theorem noCall_rel (R : RefCtx) : CallRel noCall R := fun _ _ _ _ _ h => by simp [noCall] at h
+
 theorem sampleF_escape : EscapeHtmlIs sampleF := by
   intro jv
   simp only [sampleF]
@@ -3575,7 +4268,7 @@ theorem sampleF_escape : EscapeHtmlIs sampleF := by
 
 -- the JavaScript the generator model writes for it (autoescaping on, one level of indentation)
 set_option maxRecDepth 8000 in
-example : (toCmds .on b!"output" sampleCmds ⟨[[]], 0⟩).map (fun r => printPieces (renderStmts 1 r.1)) = some
+example : (toCmds .on b!"output" sampleCmds ⟨[[]], 0⟩).map (fun r => printPieces (renderStmts false 1 r.1)) = some
     b!"  var x$1 = ((opt_data.a) + (1));\n  if (((x$1) > (2))) {\n    output += 'big ';\n    var x$2 = '\\u003C';\n    output += soy.$$escapeHtml(x$2);\n  } else {\n    output += 'small';\n  }\n  output += soy.$$escapeHtml(soy.$$truncate(x$1,3,true));\n" := rfl
 
 def sampleJEnv (a : Int) : JEnv := ⟨[(b!"a", .num a)], none, [(b!"output", .str [])]⟩
@@ -3585,7 +4278,7 @@ def sampleEnv (a : Int) : SEnv := { vars := [(b!"a", .int a)], loops := [], ij :
 def sampleRun (a : Int) : Option JVal :=
   match toCmds .on b!"output" sampleCmds ⟨[[]], 0⟩ with
   | some r =>
-    (match execStmts sampleF 10 r.1 (sampleJEnv a) with
+    (match execStmts sampleF noCall 10 r.1 (sampleJEnv a) with
       | .ok e => (e.locals.find? (·.1 == b!"output")).map (·.2)
       | _ => none)
   | none => none
@@ -3593,24 +4286,25 @@ def sampleRun (a : Int) : Option JVal :=
 -- the inner `$x` is the fresh local `x$2`; after the block `$x` is `x$1` again
 example : sampleRun 5 = some (.str b!"big &lt;truncate!6") := rfl
 example : sampleRun 0 = some (.str b!"smalltruncate!1") := rfl
-example : refCmds sampleF .on sampleCmds (sampleEnv 5) = .val b!"big &lt;truncate!6" := rfl
-example : refCmds sampleF .on sampleCmds (sampleEnv 0) = .val b!"smalltruncate!1" := rfl
+example : refCmds sampleF noRef .on sampleCmds (sampleEnv 5) = .val b!"big &lt;truncate!6" := rfl
+example : refCmds sampleF noRef .on sampleCmds (sampleEnv 0) = .val b!"smalltruncate!1" := rfl
 
 /-- the theorem on the sample: for EVERY `a` the statements complete on, the specification's text is
     what `output` holds -/
 example (a : Int) (ha : SoyVerif.Spec.JsSem.exact a = true) (jenv' : JEnv) (r : JsStmts × Scope) (h : toCmds .on b!"output" sampleCmds ⟨[[]], 0⟩ = some r)
-    (hx : execStmts sampleF 10 r.1 (sampleJEnv a) = .ok jenv') :
-    ∃ text, refCmds sampleF .on sampleCmds (sampleEnv a) = .val text ∧ BufIs b!"output" jenv' text :=
-  gen_correct_body_partial sampleF .on sampleCmds 0 r h (sampleEnv a) _ none
+    (hx : execStmts sampleF noCall 10 r.1 (sampleJEnv a) = .ok jenv') :
+    ∃ text, refCmds sampleF (noRefOn (sampleEnv a).vars) .on sampleCmds (sampleEnv a) = .val text ∧
+      BufIs b!"output" jenv' text :=
+  gen_correct_body_partial sampleF noCall (noRefOn (sampleEnv a).vars) .on (noCall_rel _) sampleCmds 0 r h (sampleEnv a) _ none rfl
     (by simp [sampleEnv, C04c.toJsKvs, C04c.toJsV, ha]) jenv' 10 hx
 
 /-- … and these statements are what the generator model writes: from a state inside a template
     function (indentation 1, buffer `output`, autoescaping on, a fresh frame) -/
 example : ∀ r, toCmds .on b!"output" sampleCmds ⟨[[]], 0⟩ = some r →
     ∃ s', walkCmds id {} sampleCmds { indent := 1, bufferName := b!"output", autoescape := .on, scope := ⟨[[]], 0⟩ } =
-      .ok ((), renderStmts 1 r.1, s') ∧ s'.scope = r.2 := by
+      .ok ((), renderStmts false 1 r.1, s') ∧ s'.scope = r.2 := by
   intro r h
-  obtain ⟨s', h1, h2⟩ := (gen_correct_cmds_partial sampleF .on b!"output" id {} sampleCmds _ r h).1 1
+  obtain ⟨s', h1, h2⟩ := (gen_correct_cmds_partial sampleF noCall noRef .on b!"output" (noCall_rel _) id {} sampleCmds _ r h).1 1
     { indent := 1, bufferName := b!"output", autoescape := .on, scope := ⟨[[]], 0⟩ } ⟨rfl, rfl, rfl, rfl⟩
   exact ⟨s', h1, h2.2.2.2⟩
 
@@ -3624,7 +4318,7 @@ def badStmts : JsStmts :=
       (.els (.cons (.appendLit b!"output" b!"small") .nil))))
   (.cons (.append b!"output" (.local b!"x$1") [⟨0, b!"truncate", [.int 0 3]⟩, escapeHtmlDir]) .nil))
 
-example : (match execStmts sampleF 10 badStmts (sampleJEnv 5) with
+example : (match execStmts sampleF noCall 10 badStmts (sampleJEnv 5) with
     | .ok e => (e.locals.find? (·.1 == b!"output")).map (·.2)
     | _ => none) = some (.str b!"big &lt;truncate!&lt;") := rfl
 
@@ -3638,13 +4332,13 @@ def sampleLoop : CmdList :=
   (.cons (.print 0 (.dataRef 0 b!"x" .nil) []) .nil)
 
 set_option maxRecDepth 8000 in
-example : (toCmds .off b!"output" sampleLoop ⟨[[]], 0⟩).map (fun r => printPieces (renderStmts 1 r.1)) = some
+example : (toCmds .off b!"output" sampleLoop ⟨[[]], 0⟩).map (fun r => printPieces (renderStmts false 1 r.1)) = some
     b!"  var x$List1 = opt_data.xs;\n  var x$Limit1 = x$List1.length;\n  if (x$Limit1 > 0) {\n    for (var x$Index1 = 0; x$Index1 < x$Limit1; x$Index1++) {\n      var x$1 = x$List1[x$Index1];\n      output += '[';\n      output += x$1;\n      output += ']';\n      var y$2 = ((x$1) + (1));\n    }\n  } else {\n    output += 'none';\n  }\n  output += opt_data.x;\n" := rfl
 
 def loopRun (xs : List JVal) : Option JVal :=
   match toCmds .off b!"output" sampleLoop ⟨[[]], 0⟩ with
   | some r =>
-    (match execStmts sampleF 10 r.1 ⟨[(b!"xs", .arr xs), (b!"x", .str b!"p")], none, [(b!"output", .str [])]⟩ with
+    (match execStmts sampleF noCall 10 r.1 ⟨[(b!"xs", .arr xs), (b!"x", .str b!"p")], none, [(b!"output", .str [])]⟩ with
       | .ok e => (e.locals.find? (·.1 == b!"output")).map (·.2)
       | _ => none)
   | none => none
@@ -3654,11 +4348,11 @@ def loopEnv (xs : List Val) : SEnv :=
 
 example : loopRun [.num 7, .num 8, .num 9] = some (.str b!"[7][8][9]p") := rfl
 example : loopRun [] = some (.str b!"nonep") := rfl
-example : refCmds sampleF .off sampleLoop (loopEnv [.int 7, .int 8, .int 9]) = .val b!"[7][8][9]p" := rfl
-example : refCmds sampleF .off sampleLoop (loopEnv []) = .val b!"nonep" := rfl
+example : refCmds sampleF noRef .off sampleLoop (loopEnv [.int 7, .int 8, .int 9]) = .val b!"[7][8][9]p" := rfl
+example : refCmds sampleF noRef .off sampleLoop (loopEnv []) = .val b!"nonep" := rfl
 -- the loop needs fuel: with too little the run is not a completed one (and the theorem says nothing)
 example : (match toCmds .off b!"output" sampleLoop ⟨[[]], 0⟩ with
-    | some r => (match execStmts sampleF 2 r.1
+    | some r => (match execStmts sampleF noCall 2 r.1
         ⟨[(b!"xs", .arr [.num 7, .num 8, .num 9])], none, [(b!"output", .str [])]⟩ with
       | .unspec => true
       | _ => false)
@@ -3671,16 +4365,16 @@ def sampleRange : CmdList :=
   (.cons (.print 0 (.dataRef 0 b!"i" .nil) []) .nil)
 
 set_option maxRecDepth 8000 in
-example : (toCmds .off b!"output" sampleRange ⟨[[]], 0⟩).map (fun r => printPieces (renderStmts 1 r.1)) = some
+example : (toCmds .off b!"output" sampleRange ⟨[[]], 0⟩).map (fun r => printPieces (renderStmts false 1 r.1)) = some
     b!"  var i$Limit1 = opt_data.n;\n  var i$Step1 = 2;\n  for (var i$1 = 1, i$Index1 = 0; i$1 < i$Limit1; i$1 += i$Step1, i$Index1++) {\n    output += i$1;\n    output += ',';\n  }\n  output += opt_data.i;\n" := rfl
 
 example : (match toCmds .off b!"output" sampleRange ⟨[[]], 0⟩ with
-    | some r => (match execStmts sampleF 10 r.1 ⟨[(b!"n", .num 6), (b!"i", .str b!"p")], none, [(b!"output", .str [])]⟩ with
+    | some r => (match execStmts sampleF noCall 10 r.1 ⟨[(b!"n", .num 6), (b!"i", .str b!"p")], none, [(b!"output", .str [])]⟩ with
       | .ok e => (e.locals.find? (·.1 == b!"output")).map (·.2)
       | _ => none)
     | none => none) = some (.str b!"1,3,5,p") := rfl
 
-example : refCmds sampleF .off sampleRange
+example : refCmds sampleF noRef .off sampleRange
     { vars := [(b!"n", .int 6), (b!"i", .str b!"p")], loops := [], ij := none, globals := [] } = .val b!"1,3,5,p" := rfl
 
 /-- `{switch $n}{case 1, 2}low{let $n: 'x' /}{$n}{case 'a'}str{default}other{/switch}{$n}` -/
@@ -3693,13 +4387,13 @@ def sampleSwitch : CmdList :=
   (.cons (.print 0 (.dataRef 0 b!"n" .nil) []) .nil)
 
 set_option maxRecDepth 8000 in
-example : (toCmds .off b!"output" sampleSwitch ⟨[[]], 0⟩).map (fun r => printPieces (renderStmts 1 r.1)) = some
+example : (toCmds .off b!"output" sampleSwitch ⟨[[]], 0⟩).map (fun r => printPieces (renderStmts false 1 r.1)) = some
     b!"  switch (opt_data.n) {\n    case 1:\n    case 2:\n      output += 'low';\n      var n$1 = 'x';\n      output += n$1;\n      break;\n    case 'a':\n      output += 'str';\n      break;\n    default:\n      output += 'other';\n      break;\n  }\n  output += opt_data.n;\n" := rfl
 
 def switchRun (n : JVal) : Option JVal :=
   match toCmds .off b!"output" sampleSwitch ⟨[[]], 0⟩ with
   | some r =>
-    (match execStmts sampleF 10 r.1 ⟨[(b!"n", n)], none, [(b!"output", .str [])]⟩ with
+    (match execStmts sampleF noCall 10 r.1 ⟨[(b!"n", n)], none, [(b!"output", .str [])]⟩ with
       | .ok e => (e.locals.find? (·.1 == b!"output")).map (·.2)
       | _ => none)
   | none => none
@@ -3707,7 +4401,7 @@ def switchRun (n : JVal) : Option JVal :=
 example : switchRun (.num 2) = some (.str b!"lowx2") := rfl
 example : switchRun (.str b!"a") = some (.str b!"stra") := rfl
 example : switchRun (.bool true) = some (.str b!"othertrue") := rfl
-example : refCmds sampleF .off sampleSwitch { vars := [(b!"n", .int 2)], loops := [], ij := none, globals := [] } =
+example : refCmds sampleF noRef .off sampleSwitch { vars := [(b!"n", .int 2)], loops := [], ij := none, globals := [] } =
     .val b!"lowx2" := rfl
 
 /-- `a{let $x}<{$n}{let $n}in{/let}{$n}>{/let}b{$x}{$n}` — the inner `{let $n}` is visible in the content block only -/
@@ -3719,16 +4413,16 @@ def sampleContent : CmdList :=
   (.cons (.rawText 0 b!"b") (.cons (.print 0 (.dataRef 0 b!"x" .nil) []) (.cons (.print 0 (.dataRef 0 b!"n" .nil) []) .nil))))
 
 set_option maxRecDepth 8000 in
-example : (toCmds .off b!"output" sampleContent ⟨[[]], 0⟩).map (fun r => printPieces (renderStmts 1 r.1)) = some
+example : (toCmds .off b!"output" sampleContent ⟨[[]], 0⟩).map (fun r => printPieces (renderStmts false 1 r.1)) = some
     b!"  output += 'a';\n  var x$1 = '';\n  x$1 += '\\u003C';\n  x$1 += opt_data.n;\n  var n$2 = '';\n  n$2 += 'in';\n  x$1 += n$2;\n  x$1 += '\\u003E';\n  output += 'b';\n  output += x$1;\n  output += opt_data.n;\n" := rfl
 
 example : (match toCmds .off b!"output" sampleContent ⟨[[]], 0⟩ with
-    | some r => (match execStmts sampleF 10 r.1 ⟨[(b!"n", .num 7)], none, [(b!"output", .str [])]⟩ with
+    | some r => (match execStmts sampleF noCall 10 r.1 ⟨[(b!"n", .num 7)], none, [(b!"output", .str [])]⟩ with
       | .ok e => (e.locals.find? (·.1 == b!"output")).map (·.2)
       | _ => none)
     | none => none) = some (.str b!"ab<7in>7") := rfl
 
-example : refCmds sampleF .off sampleContent { vars := [(b!"n", .int 7)], loops := [], ij := none, globals := [] } =
+example : refCmds sampleF noRef .off sampleContent { vars := [(b!"n", .int 7)], loops := [], ij := none, globals := [] } =
     .val b!"ab<7in>7" := rfl
 
 /-- `{for $i in range(1, 4)}{index($i)}{isFirst($i) ? 'F' : ''}{isLast($i) ? 'L' : ''},{/for}` and the same over a list —
@@ -3743,23 +4437,120 @@ def sampleLoopFns (list : Expr) : CmdList :=
 def rangeList : Expr := .func 0 b!"range" (.cons (.int 0 1) (.cons (.int 0 4) .nil))
 
 set_option maxRecDepth 8000 in
-example : (toCmds .off b!"output" (sampleLoopFns rangeList) ⟨[[]], 0⟩).map (fun r => printPieces (renderStmts 1 r.1)) = some
+example : (toCmds .off b!"output" (sampleLoopFns rangeList) ⟨[[]], 0⟩).map (fun r => printPieces (renderStmts false 1 r.1)) = some
     b!"  var i$Limit1 = 4;\n  var i$Step1 = 1;\n  for (var i$1 = 1, i$Index1 = 0; i$1 < i$Limit1; i$1 += i$Step1, i$Index1++) {\n    output += i$Index1;\n    output += (((i$Index1 == 0)) ?'F':'');\n    output += (((i$1 + i$Step1 >= i$Limit1)) ?'L':'');\n    output += ',';\n  }\n" := rfl
 
 def loopFnsRun (list : Expr) (data : List (Bytes × JVal)) : Option JVal :=
   match toCmds .off b!"output" (sampleLoopFns list) ⟨[[]], 0⟩ with
   | some r =>
-    (match execStmts sampleF 10 r.1 ⟨data, none, [(b!"output", .str [])]⟩ with
+    (match execStmts sampleF noCall 10 r.1 ⟨data, none, [(b!"output", .str [])]⟩ with
       | .ok e => (e.locals.find? (·.1 == b!"output")).map (·.2)
       | _ => none)
   | none => none
 
 example : loopFnsRun rangeList [] = some (.str b!"0F,1,2L,") := rfl
-example : refCmds sampleF .off (sampleLoopFns rangeList) { vars := [], loops := [], ij := none, globals := [] } =
+example : refCmds sampleF noRef .off (sampleLoopFns rangeList) { vars := [], loops := [], ij := none, globals := [] } =
     .val b!"0F,1,2L," := rfl
 example : loopFnsRun (.dataRef 0 b!"xs" .nil) [(b!"xs", .arr [.str b!"a", .str b!"b"])] = some (.str b!"0F,1L,") := rfl
-example : refCmds sampleF .off (sampleLoopFns (.dataRef 0 b!"xs" .nil))
+example : refCmds sampleF noRef .off (sampleLoopFns (.dataRef 0 b!"xs" .nil))
     { vars := [(b!"xs", .list [.str b!"a", .str b!"b"])], loops := [], ij := none, globals := [] } = .val b!"0F,1L," := rfl
+
+/-- `[{call sem.c data="all"}{param p: $a + 1 /}{param c}<{$a}>{/param}{/call}]` -/
+def sampleCall : CmdList :=
+  .cons (.rawText 0 b!"[") (.cons (.call 0 b!"sem.c" true none
+    (.value 0 b!"p" (.bin .add 0 (.dataRef 0 b!"a" .nil) (.int 0 1))
+      (.content 0 b!"c" (.mk 0 (.cons (.rawText 0 b!"<") (.cons (.print 0 (.dataRef 0 b!"a" .nil) []) (.cons (.rawText 0 b!">") .nil)))) .nil)))
+    (.cons (.rawText 0 b!"]") .nil))
+
+-- the content param is rendered into `param$1` first; the call's data is `opt_data` with the params laid over it
+set_option maxRecDepth 8000 in
+example : (toCmds .on b!"output" sampleCall ⟨[[]], 0⟩).map (fun r => printPieces (renderStmts false 1 r.1)) = some
+    b!"  output += '[';\n  var param$1 = '';\n  param$1 += '\\u003C';\n  param$1 += soy.$$escapeHtml(opt_data.a);\n  param$1 += '\\u003E';\n  output += sem.c(soy.$$augmentMap(opt_data, {p: ((opt_data.a) + (1)), c: param$1}), opt_sb, opt_ijData);\n  output += ']';\n" := rfl
+
+/-- a callee oracle: the function `sem.c` returns `p:c:a` of its data object (`{$p}:{$c|noAutoescape}:{$a}`) -/
+def sampleG (name : Bytes) (d : JVal) : JOut :=
+  if name == b!"sem.c" then
+    match d with
+    | .obj jd =>
+      (match prop jd b!"p", prop jd b!"c", prop jd b!"a" with
+        | .num p, .str c, .num a => .val (.str (F64.intDigits p ++ b!":" ++ c ++ b!":" ++ F64.intDigits a))
+        | _, _, _ => .unspec)
+    | _ => .unspec
+  else .unspec
+
+def sampleTmpl : Registry.Tmpl := { (default : Registry.Tmpl) with name := b!"sem.c" }
+
+/-- … and the reference's `call` for it: the template `sem.c` renders `p:c:a` of the data it is entered with -/
+def sampleR (entry : Spec.Eval.Binds) : RefCtx :=
+  ⟨[sampleTmpl], entry, fun _ ce =>
+    match Spec.Eval.find ce.entry b!"p", Spec.Eval.find ce.entry b!"c", Spec.Eval.find ce.entry b!"a" with
+    | some (.int p), some (.str c), some (.int a) => .val (F64.intDigits p ++ b!":" ++ c ++ b!":" ++ F64.intDigits a)
+    | _, _, _ => .error⟩
+
+theorem toJsV_num {v : Val} {i : Int} (h : toJsV v = some (.num i)) : v = .int i := by
+  cases v <;> simp [C04c.toJsV] at h
+  exact congrArg Val.int h.2
+
+theorem toJsV_str {v : Val} {t : Bytes} (h : toJsV v = some (.str t)) : v = .str t := by
+  cases v <;> simp [C04c.toJsV] at h
+  exact congrArg Val.str h
+
+theorem find_of_getD {b : Spec.Eval.Binds} {k : Bytes} {v : Val} (h : (Spec.Eval.find b k).getD .undefined = v)
+    (hv : v ≠ .undefined) : Spec.Eval.find b k = some v := by
+  cases hf : Spec.Eval.find b k with
+  | none => rw [hf] at h; exact absurd h.symm hv
+  | some w => rw [hf] at h; exact congrArg some h
+
+/-- the oracle pair satisfies the hypothesis of the call theorems -/
+theorem sampleG_rel (entry : Spec.Eval.Binds) : CallRel sampleG (sampleR entry) := by
+  intro name ce jd r hj hg
+  unfold sampleG at hg
+  split at hg
+  · rename_i hn
+    have hn' : name = b!"sem.c" := by simpa using hn
+    subst hn'
+    simp only at hg
+    have hp := C04c.toJsKvs_find ce.entry jd b!"p" hj
+    have hc := C04c.toJsKvs_find ce.entry jd b!"c" hj
+    have ha := C04c.toJsKvs_find ce.entry jd b!"a" hj
+    split at hg
+    · rename_i p c a h1 h2 h3
+      simp only [JOut.val.injEq] at hg; subst hg
+      rw [h1] at hp; rw [h2] at hc; rw [h3] at ha
+      have e1 := find_of_getD (toJsV_num hp) (by simp)
+      have e2 := find_of_getD (toJsV_str hc) (by simp)
+      have e3 := find_of_getD (toJsV_num ha) (by simp)
+      exact ⟨sampleTmpl, _, rfl, by simp only [sampleR, e1, e2, e3], rfl⟩
+    · cases hg
+  · cases hg
+
+def callRun (a : Int) : Option JVal :=
+  match toCmds .on b!"output" sampleCall ⟨[[]], 0⟩ with
+  | some r =>
+    (match execStmts sampleF sampleG 10 r.1 ⟨[(b!"a", .num a)], none, [(b!"output", .str [])]⟩ with
+      | .ok e => (e.locals.find? (·.1 == b!"output")).map (·.2)
+      | _ => none)
+  | none => none
+
+example : callRun 5 = some (.str b!"[6:<5>:5]") := rfl
+example : refCmds sampleF (sampleR [(b!"a", .int 5)]) .on sampleCall (sampleEnv 5) = .val b!"[6:<5>:5]" := rfl
+
+/-- the theorem on the sample, for every `a`: what the JavaScript leaves in `output` is what the reference renders -/
+example (a : Int) (jenv' : JEnv) (r : JsStmts × Scope) (h : toCmds .on b!"output" sampleCall ⟨[[]], 0⟩ = some r)
+    (ha : SoyVerif.Spec.JsSem.exact a = true)
+    (hx : execStmts sampleF sampleG 10 r.1 (sampleJEnv a) = .ok jenv') :
+    ∃ text, refCmds sampleF (sampleR (sampleEnv a).vars) .on sampleCall (sampleEnv a) = .val text ∧
+      BufIs b!"output" jenv' text :=
+  gen_correct_body_partial sampleF sampleG (sampleR (sampleEnv a).vars) .on (sampleG_rel _) sampleCall 0 r h (sampleEnv a) _ none rfl
+    (by simp [sampleEnv, C04c.toJsKvs, C04c.toJsV, ha]) jenv' 10 hx
+
+/-- the semantics of the call has teeth: were the params laid UNDER the data (`augmentMap` the other way round), a
+    param could not override a key of `data="all"` -/
+example : (match execStmts sampleF sampleG 10
+      (.cons (.call b!"output" b!"sem.c" .all [(b!"c", .str b!"x"), (b!"p", .num 1), (b!"a", .num 9)]) .nil)
+      ⟨[(b!"a", .num 5)], none, [(b!"output", .str [])]⟩ with
+    | .ok e => (e.locals.find? (·.1 == b!"output")).map (·.2)
+    | _ => none) = some (.str b!"1:x:9") := rfl
 
 /-! ## what is proved, and what remains outside
 
@@ -3771,7 +4562,8 @@ example : refCmds sampleF .off (sampleLoopFns (.dataRef 0 b!"xs" .nil))
   numbers / strings against the specification's equality; `undefined` and lists / maps as switch value or label
   are outside the subset), `{let $x}…{/let}` (`var x$n = ''; x$n += …;` — the body is translated with the
   new buffer; `GoodBuf`: the buffer in use is no local the scope hands out and no name still to be
-  generated) — nested at will — with `e` in the expression
+  generated), `{call name}` / `{call name data="all"}` / `{call name data="$e"}` with `{param k: e /}` and
+  `{param k}…{/param}` (see CALLS below) — nested at will — with `e` in the expression
   fragment of Props/C04c (literals, arithmetic / comparison / logic, `?:`, `?:`-elvis, variables and
   parameters with `.k` / `[i]` / `?.k` accesses, length / isNonnull / floor / ceiling / round / min /
   max; no floats, integers a double holds exactly):
@@ -3796,8 +4588,24 @@ example : refCmds sampleF .off (sampleLoopFns (.dataRef 0 b!"xs" .nil))
   exactly in the last iteration — for a range loop `v + step >= limit`, related to the length of the rest of the
   range by `rangeItems_step`).
 
-  OUTSIDE (no theorem at the command level): `range` with a computed step, `{call}` (needs a semantics of the generated FUNCTIONS and
-  of soy.$$augmentMap; `{param}` content blocks with it), `{msg}` (placeholders, plural), `{css}`, `{log}`, `{debugger}`, `$ij`, globals, print directives with
+  CALLS.  The statement `buf += callee(data, opt_sb, opt_ijData);` (Spec/JsStmt `.call`): the data object is `{}`,
+  `opt_data` or the value of the `data="$e"` expression (an object, else `unspec`), with the `key: value` list laid
+  over it (`soy.$$augmentMap`: the params first in every lookup, a later param before an earlier one); the
+  statements that render the content params into buffers `param$n` of their own come first (`toParams`,
+  `visitParams_renders`: the generator writes them in this order).  What the callee returns is the ORACLE
+  `G : Bytes → JVal → JOut` of the semantics; the reference side is `R : RefCtx` — the registry, the entry data of
+  the template (`data="all"` passes it on) and Spec/Eval's `call`.  The hypothesis `CallRel G R` ties them: when the
+  function returns on the JSON image of a data map, the name is a template of the registry, `call` renders it on
+  that map, and the function returned this text.  Under it `call_ok` / `params_ok` put `{call}` inside
+  `gen_correct_cmds_partial`; the environment relation `EnvRel R.entry …` now also says that `opt_data` is the JSON
+  image of the entry data (`gen_correct_body_partial`: `R.entry = env.vars`).  Props/C04e adds `CallRelE` (the
+  function throws only where `call` does not render) for the converse.  `CallRel` is the statement of this very
+  theorem one template down; it is NOT discharged here (no induction over the call depth: the whole-program theorem,
+  with the template header, is outside).  The harness property C04sem instantiates the oracle with the run of the
+  callee's translated body and compares with otto.
+
+  OUTSIDE (no theorem at the command level): `range` with a computed step, `{call}` to a `{deltemplate}` (`{delcall}`),
+  the discharge of `CallRel` (above), `{msg}` (placeholders, plural), `{css}`, `{log}`, `{debugger}`, `$ij`, globals, print directives with
   non-literal arguments, the template header (`opt_data = opt_data || {}`, `return output`) and
   the file level (namespaces, goog.provide / ES6 imports — covered for SHAPE by C14, not for meaning). -/
 
